@@ -1,219 +1,80 @@
-(* Bracket.v — property C08, the general theorem: lock discipline of every API program, for every
-   well-typed answer (hence every value read, every interleaving, every fault plan), and its
-   consequence for pools of any size under any schedule: no deadlock, every call returns, no lock
-   is left behind.
+(* FlockFaults.v — properties C08 / C13 (F2): the failing FILE LOCK.  Bracket.v proves deadlock
+   freedom and "no lock is left" for every pool, every schedule and every pattern of I/O failures
+   at the [Bracket.faultable] operations, i.e. the fault sites of [Sched.is_site] MINUS
+   [Acquire LFile _]; FaultGeneral.v's [fault_returns_no_lock] inherits the exclusion as the
+   hypothesis [noflock].  This file removes the exclusion: the flock itself may fail, too.
 
-   Structure
-     §1  local state of a thread (held locks; knowledge about the content of its own temp files
-         in refs/tmp, needed to show that what is renamed onto a reference file has reference
-         content), the obligations [pre] an operation must meet, the admissible answers [ans_ok]
-     §2  [Br]: the discipline predicate over programs (a weakest precondition over ALL
-         admissible answers; [Bad] is forbidden), with the rules for bind / mbind / catch /
-         try_finally and the three bracket shapes
-     §3  every API program is bracketed: [api_bracketed] (all calls, CDeleteUnfixed included)
-     §4  soundness of one operation against the real [exec_op]: [exec_op_sound]
-     §5  pools: steps with faults, the global invariant, preservation, stuck => finished
-     §6  the theorems: [no_deadlock_no_leak], [no_deadlock_fault_free], [progress],
-         [afterwards_every_call_returns], [gstep_terminates], [runs_to_completion]
+   What happens when flock fails.  In [update_refs_add] / [update_refs_remove] the flock is taken
+   inside [try_finally ... (funlock a)]: a failed [Acquire LFile (IDoc a)] raises OSError, the
+   finaliser issues [Release LFile (IDoc a)] although the thread does not hold that lock.  The
+   model's [Release] is not owner-aware: if nobody holds the lock it answers [AErr EFault], which
+   [funlock] swallows (the world is unchanged); if ANOTHER thread held it, it would be taken
+   away from that thread — whose own [funlock] would then be answered [AErr EFault], swallowed
+   again.  Neither case breaks anything that C08 states: the discipline below tolerates both.
+   (Whether the second case can arise at all for the API programs is NOT decided here: every
+   flock is taken on a cid reference file by a thread that holds that cid's lock, which suggests
+   it cannot, but this file neither needs nor proves that.  What the real code does — closing a
+   file whose flock was never obtained releases nothing — corresponds to the first case.)
 
-   The lock order is LObjPid < LRefPid < LCid < LMeta = LFile (LMeta and LFile are never nested).
-   A thread only ever waits for a lock ranked strictly above everything it holds; the holder of
-   that lock has not returned (a returned call holds nothing), so in a configuration that cannot
-   move it waits, too, for a lock ranked strictly higher; ranks are bounded: contradiction.
+   The discipline.  [Bracket.pre], [next_h], [next_k] are kept as they are: the thread-local view
+   [h] of the held locks does not depend on the answers.  A failed flock therefore leaves a
+   GHOST entry (LFile, IDoc a) in the view — the thread believes it must close the file, which
+   is exactly what the [with open(...)] block does — and the following [funlock] removes it.
+   Only two things change with respect to Bracket.v:
+     * [ans_ok]: [Acquire LFile _] and [Release LFile _] may be answered by an error;
+     * [LInv]: the view and the world agree exactly on the IDENTIFIER locks (classes LObjPid,
+       LRefPid, LCid, LMeta: every entry of a view is in the world, no two views share one);
+       for the class LFile only "every lock of the world is in some view" is kept.
+   That is enough: a thread that waits for a lock waits for a lock of the world, which is in the
+   view of a thread that has not returned and that waits, if at all, for a strictly higher
+   rank; and when every thread has returned all views are empty, hence so is the world.
 
-   What is excluded, and why
-     * A failure of flock itself ([Acquire LFile _] answered [AErr EFault]) is NOT among the
-       faults of this theorem: the model's [Release LFile] is not owner-aware, so a failed flock
-       followed by the unconditional close ([funlock]) would release the flock of ANOTHER
-       thread.  That case is treated in FlockFaults.v (the same theorems, flock among the
-       faults, for a lock invariant that is exact on the identifier locks only).  Every other
-       fault site of [Sched.is_site] may fail at any time, any number of times, in any thread.
-     * The start world must be typed as far as the programs rely on it ([refs_typed]: a pid
-       reference holds a cid, a cid reference holds lines).  Without it a program receives an
-       ill-typed answer and stops at [Bad], which [Sched.finished] counts as "not returned";
-       see props/C08.v for the concrete witness.  [Spec.well_typed] (part of the invariant
-       C05) implies [refs_typed], and [refs_typed] is preserved by every step, so it holds again
-       afterwards. *)
-From HS Require Import Base PyVal FS Ops Sched Spec.
+   §2, §3 re-run Bracket.v's proof that every API program is bracketed for the relaxed [ans_ok]
+   (only the flock bracket [Bal_bracket_file] has a new proof; the brackets of the identifier
+   locks get the side condition cls <> LFile); §4-§6 are Bracket.v's with the weaker [LInv].
+   Definitions with the same name as in Bracket.v shadow them in this file; everything that does
+   not depend on [ans_ok] or [LInv] (pre, next_h, next_k, refs_typed, KInv, ...) IS Bracket.v's.
+
+   Theorems
+     [no_deadlock_no_leak_any_fault], [no_deadlock_no_leak_any_fault_stuck], [progress_any_fault],
+     [gstep_terminates], [runs_to_completion_any_fault]        pools, faults at every [is_site]
+     [fault_returns_no_lock_any]          single call, every [Sched.run_fault] plan, no [noflock]
+     [one_off_fault_returns_no_lock_any]  its instance for [FWait k false], every k
+     [C13_general_partial_any]            FaultGeneral.C13_general_partial with (F2) unconditional *)
+From HS Require Import Base PyVal FS Ops Sched Spec Bracket.
+From HS Require FaultGeneral.
 
 Set Implicit Arguments.
 
 (* ====================================================================================== *)
-(* §1  local state, obligations, admissible answers                                        *)
+(* §1  admissible answers, flock included                                                  *)
 (* ====================================================================================== *)
 
-Inductive kind := KCid | KLines.
-
-Definition has_kind (c : fcontent) (k : kind) : Prop :=
-  match k, c with
-  | KCid, CCid _ => True
-  | KLines, CLines _ => True
-  | KLines, CEmpty => True
-  | _, _ => False
-  end.
-
-Definition kind_of (c : fcontent) : option kind :=
-  match c with
-  | CCid _ => Some KCid
-  | CLines _ | CEmpty => Some KLines
-  | CData _ _ _ => None
-  end.
-
-Lemma kind_of_has : forall c k, kind_of c = Some k -> has_kind c k.
-Proof. destruct c; simpl; intros k H; inversion H; subst; exact I. Qed.
-
-(* what a thread knows about the content of its own temp files in refs/tmp *)
-Definition knowl := list (addr * kind).
-
-(* the lock order.  LFile and LMeta are never nested, they share the top rank. *)
-Definition rank (c : lockcls) : nat :=
-  match c with LObjPid => 0 | LRefPid => 1 | LCid => 2 | LMeta => 3 | LFile => 3 end.
-
-Lemma rank_le_3 : forall c, rank c <= 3.
-Proof. destruct c; simpl; lia. Qed.
-
-Definition lt_all (R : nat) (h : list lock) : Prop := forall l, In l h -> rank (fst l) < R.
-
-Lemma lt_all_nil : forall R, lt_all R [].
-Proof. intros R l []. Qed.
-Lemma lt_all_cons : forall R cls x h, rank cls < R -> lt_all R h -> lt_all R ((cls, x) :: h).
-Proof. intros R cls x h H1 H2 l [<-|H]; simpl; auto. Qed.
-Lemma lt_all_mono : forall R R' h, R <= R' -> lt_all R h -> lt_all R' h.
-Proof. intros R R' h H1 H2 l Hl. specialize (H2 l Hl). lia. Qed.
-
-(* [mine i a]: a is not a temp file of another thread *)
-Definition mine (i : nat) (a : addr) : Prop :=
-  match a with ATmp _ t _ => t = i | _ => True end.
-Definition nontmp (a : addr) : Prop :=
-  match a with ATmp _ _ _ => False | _ => True end.
-
-Lemma nontmp_mine : forall i a, nontmp a -> mine i a.
-Proof. destruct a; simpl; tauto. Qed.
-
-Definition kdrop (a : addr) (kn : knowl) : knowl :=
-  match a with
-  | ATmp ArRefs _ _ => filter (fun e => negb (addr_eqb a (fst e))) kn
-  | _ => kn
-  end.
-
-Definition kset (a : addr) (c : fcontent) (kn : knowl) : knowl :=
-  match a with
-  | ATmp ArRefs _ _ =>
-      match kind_of c with Some k => (a, k) :: kdrop a kn | None => kdrop a kn end
-  | _ => kn
-  end.
-
-Lemma kdrop_nontmp : forall a kn, nontmp a -> kdrop a kn = kn.
-Proof. destruct a; simpl; tauto. Qed.
-
-Lemma kdrop_In : forall a b k kn, In (b, k) (kdrop a kn) -> In (b, k) kn.
-Proof.
-  intros a b k kn H. unfold kdrop in H. destruct a; auto. destruct ar; auto.
-  apply filter_In in H. tauto.
-Qed.
-
-Lemma filter_absent : forall (a : addr) (kn : knowl), (forall k, ~ In (a, k) kn) ->
-  filter (fun e => negb (addr_eqb a (fst e))) kn = kn.
-Proof.
-  intros a kn H.
-  induction kn as [|[b k] kn IH]; cbn [filter fst]; auto.
-  destruct (addr_eqb a b) eqn:E.
-  - apply addr_eqb_true in E. subst b. exfalso. apply (H k). left. reflexivity.
-  - cbn [negb]. f_equal. apply IH. intros k' Hk'. apply (H k'). right. exact Hk'.
-Qed.
-
-Lemma kdrop_absent : forall a kn, (forall k, ~ In (a, k) kn) -> kdrop a kn = kn.
-Proof.
-  intros a kn H. unfold kdrop. destruct a; auto. destruct ar; auto.
-  apply filter_absent. exact H.
-Qed.
-
-Lemma kdrop_In_neq : forall n t b k kn, In (b, k) (kdrop (ATmp ArRefs t n) kn) -> b <> ATmp ArRefs t n.
-Proof.
-  intros n t b k kn H. unfold kdrop in H. apply filter_In in H. destruct H as [_ H].
-  cbn [fst] in H. intros ->. rewrite addr_eqb_refl in H. discriminate.
-Qed.
-
-Lemma kdrop_In_keep : forall a b k kn, In (b, k) kn -> b <> a -> In (b, k) (kdrop a kn).
-Proof.
-  intros a b k kn H Hne. unfold kdrop. destruct a; auto. destruct ar; auto.
-  apply filter_In. split; auto. cbn [fst].
-  destruct (addr_eqb (ATmp ArRefs t n) b) eqn:E; auto. apply addr_eqb_true in E. congruence.
-Qed.
-
-(* obligations of thread i, holding h and knowing kn, when it issues o *)
-Definition pre (i : nat) (h : list lock) (kn : knowl) (o : op) : Prop :=
-  match o with
-  | Acquire cls _ => lt_all (rank cls) h
-  | Release cls x => In (cls, x) h
-  | WriteChunk a | Remove a | AppendWrite a _ | RewriteWrite a _ | Truncate a _ => mine i a
-  | OpenWr a _ => exists ar n, a = ATmp ar i n
-  | Rename s d =>
-      mine i s /\
-      match d with
-      | APidRef _ => In (s, KCid) kn
-      | ACidRef _ => In (s, KLines) kn
-      | ATmp _ _ _ => False
-      | _ => True
-      end
-  | AppendOpen a => match a with ACidRef _ => True | _ => False end
-  | _ => True
-  end.
-
-Definition unit_or_err (a : ans) : Prop := match a with AUnit | AErr _ => True | _ => False end.
-
-(* the answers thread i may receive for o: the type the wrapper expects, an error wherever an
-   error can be delivered (every fault site except flock), a reference file read yields
-   reference content, a fresh temp file is the thread's own and new *)
+(* the answers thread i may receive for o: Bracket.v's, and an error for flock / close *)
 Definition ans_ok (i : nat) (kn : knowl) (o : op) (a : ans) : Prop :=
   match o with
-  | Probe _ | Peek _ _ | Held _ _ => match a with ABool _ => True | _ => False end
-  | SizeLines _ | RewriteWrite _ _ => match a with ANat _ | AErr _ => True | _ => False end
-  | Read x =>
-      match a with
-      | AErr _ => True
-      | ACont c => match x with
-                   | APidRef _ => has_kind c KCid
-                   | ACidRef _ => has_kind c KLines
-                   | _ => True
-                   end
-      | _ => False
-      end
-  | MkTmp ar _ =>
-      match a with
-      | AErr _ => True
-      | AAddr t => (exists n, t = ATmp ar i n) /\ forall k, ~ In (t, k) kn
-      | _ => False
-      end
-  | ListDir _ => match a with AErr _ => True | AList l => Forall nontmp l | _ => False end
-  | Acquire _ _ | Release _ _ => a = AUnit
-  | _ => unit_or_err a
+  | Acquire LFile _ | Release LFile _ => unit_or_err a
+  | _ => Bracket.ans_ok i kn o a
   end.
 
-Definition next_h (h : list lock) (o : op) : list lock :=
-  match o with
-  | Acquire cls x => (cls, x) :: h
-  | Release cls x => remove1 lock_eqb (cls, x) h
-  | _ => h
-  end.
+Lemma ans_ok_weaken : forall i kn o a, Bracket.ans_ok i kn o a -> ans_ok i kn o a.
+Proof.
+  intros i kn o a H. destruct o; try exact H; destruct cls; try exact H;
+    simpl in H; subst; exact I.
+Qed.
 
-Definition next_k (kn : knowl) (o : op) (a : ans) : knowl :=
-  match o with
-  | OpenWr t c => match a with AUnit => kset t c kn | _ => kn end
-  | Rename s _ => kdrop s kn
-  | Remove s => kdrop s kn
-  | _ => kn
-  end.
-
-(* the faults of the general theorem: every site except flock *)
-Definition faultable (o : op) : bool :=
-  is_site o && negb (match o with Acquire LFile _ => true | _ => false end).
+(* the faults of this file: every site, flock included *)
+Definition faultable (o : op) : bool := is_site o.
 
 Lemma faultable_ans_ok : forall i kn o, faultable o = true -> ans_ok i kn o (AErr EFault).
 Proof.
   intros i kn o H. destruct o; simpl in *; try discriminate; try exact I.
-  destruct cls; discriminate.
+  destruct cls; try discriminate. exact I.
 Qed.
+
+(* ====================================================================================== *)
+(* §2  the discipline predicate                                                            *)
+(* ====================================================================================== *)
 
 (* ====================================================================================== *)
 (* §2  the discipline predicate                                                            *)
@@ -349,71 +210,96 @@ Qed.
 Lemma remove1_head : forall (l : lock) h, remove1 lock_eqb l (l :: h) = h.
 Proof. intros. simpl. rewrite lock_eqb_refl. reflexivity. Qed.
 
+(* an identifier lock (any class but LFile) is answered AUnit, as in Bracket.v *)
+Ltac lock_ans :=
+  let a := fresh "a" in let Ha := fresh "Ha" in let E := fresh "E" in
+  intros a Ha;
+  assert (E : a = AUnit) by
+    (revert Ha; repeat match goal with c : lockcls |- _ => destruct c end;
+     try congruence; simpl; auto; fail);
+  subst a; clear Ha.
+
 Lemma Bal_bracket_in : forall A kp i R cls x (body : M A) P,
+  cls <> LFile ->
   R <= rank cls -> Bal kp i (S (rank cls)) body P ->
   Bal kp i R (try_finally (acquire cls x ;;; body) (release cls x)) P.
 Proof.
-  intros A kp i R cls x body P HR Hb h kn Hh. apply Br_try_finally. apply Br_mbind.
-  simpl. split; [eapply lt_all_mono; eauto|].
-  intros a ->. simpl.
+  intros A kp i R cls x body P NF HR Hb h kn Hh. apply Br_try_finally. apply Br_mbind.
+  cbn [acquire Br]. split; [simpl; eapply lt_all_mono; eauto|].
+  lock_ans. cbn [Br ret next_h next_k].
   eapply Br_mono; [apply Hb; apply lt_all_cons; [lia | eapply lt_all_mono; [|exact Hh]; lia]|].
-  simpl. intros r h' kn' (-> & H2 & H3).
+  cbn beta. intros r h' kn' (-> & H2 & H3).
   assert (Hrel : forall r' : outcome A, (forall a, r' = Val a -> P a) ->
             Br i (release cls x) ((cls, x) :: h) kn'
             (fun rf h'' kn'' => match rf with
                                 | Val _ => h'' = h /\ (kp = true -> kn'' = kn) /\ (forall a, r' = Val a -> P a)
                                 | Exn e => h'' = h /\ (kp = true -> kn'' = kn) /\ (forall a : A, Exn e = Val a -> P a)
                                 end)).
-  { intros r' Hr'. simpl. split; [left; reflexivity|]. intros a ->. simpl. rewrite lock_eqb_refl. auto. }
+  { intros r' Hr'. cbn [release Br]. split; [left; reflexivity|]. lock_ans.
+    cbn [Br ret next_h next_k]. rewrite remove1_head. auto. }
   destruct r; apply Hrel; auto; intros a E; discriminate.
 Qed.
 
 (* two locks taken in rank order, released in the reverse order by one finaliser *)
 Lemma Bal_bracket_in2 : forall A kp i R c1 x1 c2 x2 (body : M A) P,
+  c1 <> LFile -> c2 <> LFile ->
   R <= rank c1 -> rank c1 < rank c2 -> Bal kp i (S (rank c2)) body P ->
   Bal kp i R (try_finally (acquire c1 x1 ;;; acquire c2 x2 ;;; body)
                           (release c2 x2 ;;; release c1 x1)) P.
 Proof.
-  intros A kp i R c1 x1 c2 x2 body P HR H12 Hb h kn Hh. apply Br_try_finally. apply Br_mbind.
+  intros A kp i R c1 x1 c2 x2 body P NF1 NF2 HR H12 Hb h kn Hh. apply Br_try_finally. apply Br_mbind.
   cbn [acquire Br]. split; [simpl; eapply lt_all_mono; eauto|].
-  intros a ->. cbn [Br ret next_h next_k]. apply Br_mbind. cbn [acquire Br].
+  lock_ans. cbn [Br ret next_h next_k]. apply Br_mbind. cbn [acquire Br].
   split; [simpl; apply lt_all_cons; [exact H12 | eapply lt_all_mono; [|exact Hh]; lia]|].
-  intros a ->. cbn [Br ret next_h next_k].
+  lock_ans. cbn [Br ret next_h next_k].
   eapply Br_mono.
   { apply Hb. apply lt_all_cons; [lia|]. apply lt_all_cons; [lia|].
     eapply lt_all_mono; [|exact Hh]. lia. }
   cbn beta. intros r h' kn' (-> & H2 & H3).
   apply Br_mbind. cbn [release Br]. split; [left; reflexivity|].
-  intros a ->. cbn [Br ret next_h next_k]. rewrite remove1_head.
+  lock_ans. cbn [Br ret next_h next_k]. rewrite remove1_head.
   split; [left; reflexivity|].
-  intros a ->. cbn [Br ret next_h next_k]. rewrite remove1_head.
+  lock_ans. cbn [Br ret next_h next_k]. rewrite remove1_head.
   destruct r; repeat split; auto; intros a E; discriminate.
 Qed.
 
 Lemma Bal_bracket_out : forall A kp i R cls x (body : M A) P,
+  cls <> LFile ->
   R <= rank cls -> Bal kp i (S (rank cls)) body P ->
   Bal kp i R (acquire cls x ;;; try_finally body (release cls x)) P.
 Proof.
-  intros A kp i R cls x body P HR Hb h kn Hh. apply Br_mbind.
-  simpl. split; [eapply lt_all_mono; eauto|].
-  intros a ->. simpl. apply Br_try_finally.
+  intros A kp i R cls x body P NF HR Hb h kn Hh. apply Br_mbind.
+  cbn [acquire Br]. split; [simpl; eapply lt_all_mono; eauto|].
+  lock_ans. cbn [Br ret next_h next_k]. apply Br_try_finally.
   eapply Br_mono; [apply Hb; apply lt_all_cons; [lia | eapply lt_all_mono; [|exact Hh]; lia]|].
-  simpl. intros r h' kn' (-> & H2 & H3).
-  split; [left; reflexivity|]. intros a ->. simpl. rewrite lock_eqb_refl. auto.
+  cbn beta. intros r h' kn' (-> & H2 & H3).
+  cbn [release Br]. split; [left; reflexivity|]. lock_ans.
+  cbn [Br ret next_h next_k]. rewrite remove1_head. auto.
 Qed.
 
-(* flock ... close *)
+(* flock ... close.  NEW with respect to Bracket.v: flock may fail.  The view then carries the
+   ghost entry (LFile, IDoc a) until the close; the close may be answered by an error. *)
 Lemma Bal_bracket_file : forall A kp i R a (body : M A) P,
   R <= 3 -> Bal kp i 4 body P ->
   Bal kp i R (try_finally (unit_op (Acquire LFile (IDoc a)) ;;; body) (funlock a)) P.
 Proof.
   intros A kp i R a body P HR Hb h kn Hh. apply Br_try_finally. apply Br_mbind.
-  simpl. split; [eapply lt_all_mono; eauto|].
-  intros x ->. simpl.
-  eapply Br_mono; [apply Hb; apply lt_all_cons; [simpl; lia | eapply lt_all_mono; [|exact Hh]; lia]|].
-  simpl. intros r h' kn' (-> & H2 & H3).
-  split; [left; reflexivity|]. intros x ->. cbn [next_h next_k]. rewrite remove1_head. simpl.
-  destruct r; repeat split; auto.
+  cbn [unit_op Br]. split; [simpl; eapply lt_all_mono; eauto|].
+  assert (Hclose : forall (r : outcome A) kn', (kp = true -> kn' = kn) -> (forall a0, r = Val a0 -> P a0) ->
+            Br i (funlock a) ((LFile, IDoc a) :: h) kn'
+              (fun rf h'' kn'' => match rf with
+                 | Val _ => h'' = h /\ (kp = true -> kn'' = kn) /\ (forall a0, r = Val a0 -> P a0)
+                 | Exn e => h'' = h /\ (kp = true -> kn'' = kn) /\ (forall a0 : A, Exn e = Val a0 -> P a0)
+                 end)).
+  { intros r kn' Hk HP. cbn [funlock Br]. split; [left; reflexivity|].
+    intros x Hx. cbn [next_h next_k]. rewrite remove1_head.
+    destruct x; simpl in Hx; try contradiction; simpl; auto. }
+  intros x Hx. destruct x; simpl in Hx; try contradiction; cbn [Br ret raise next_h next_k].
+  - (* flock obtained *)
+    eapply Br_mono; [apply Hb; apply lt_all_cons; [simpl; lia | eapply lt_all_mono; [|exact Hh]; lia]|].
+    cbn beta. intros r h' kn' (-> & H2 & H3). apply Hclose; auto.
+  - (* flock failed: OSError, the file is closed all the same *)
+    apply Hclose; auto. intros a0 E; discriminate.
 Qed.
 
 (* ====================================================================================== *)
@@ -513,46 +399,46 @@ Section API.
 End API.
 
 Global Hint Resolve Bal_probe Bal_peek Bal_held Bal_read Bal_size_lines Bal_listdir
-  Bal_rewrite_write : bal.
-Global Hint Extern 1 (nontmp _) => exact I : bal.
-Global Hint Extern 1 (mine _ _) => first [exact I | reflexivity | apply nontmp_mine; assumption] : bal.
-Global Hint Extern 1 (_ <= _) => simpl; lia : bal.
+  Bal_rewrite_write : fbal.
+Global Hint Extern 1 (nontmp _) => exact I : fbal.
+Global Hint Extern 1 (mine _ _) => first [exact I | reflexivity | apply nontmp_mine; assumption] : fbal.
+Global Hint Extern 1 (_ <= _) => simpl; lia : fbal.
 
 (* side conditions of a neutral operation *)
 Ltac op_side :=
   first
     [ apply Bal_unit_op | apply Bal_swallow_op ];
-  [ intros; simpl; auto with bal
+  [ intros; simpl; auto with fbal
   | reflexivity
-  | intros; simpl; first [reflexivity | apply kdrop_nontmp; auto with bal]
+  | intros; simpl; first [reflexivity | apply kdrop_nontmp; auto with fbal]
   | let kn := fresh in let a := fresh in let H := fresh in
     intros kn a H; first [exact H | simpl in H; subst; exact I] ].
 
 Ltac bal :=
   lazymatch goal with
   | |- Bal _ _ _ (ret _) _ =>
-      apply Bal_ret; first [exact I | solve [repeat constructor; auto with bal] | auto with bal]
+      apply Bal_ret; first [exact I | solve [repeat constructor; auto with fbal] | auto with fbal]
   | |- Bal _ _ _ (raise _) _ => apply Bal_raise
   | |- Bal _ _ _ (if ?b then _ else _) _ => destruct b; bal
   | |- Bal _ _ _ (match ?x with _ => _ end) _ => destruct x; bal
   | |- Bal _ _ _ (try_finally (mbind (unit_op (Acquire LFile (IDoc ?a))) _) (funlock ?a)) _ =>
-      apply Bal_bracket_file; [auto with bal | bal]
+      apply Bal_bracket_file; [auto with fbal | bal]
   | |- Bal _ _ _ (try_finally (mbind (acquire ?c1 ?x1) (fun _ => mbind (acquire ?c2 ?x2) _))
                               (mbind (release ?c2 ?x2) (fun _ => release ?c1 ?x1))) _ =>
-      apply Bal_bracket_in2; [auto with bal | simpl; lia | cbn [rank]; bal]
+      apply Bal_bracket_in2; [discriminate | discriminate | auto with fbal | simpl; lia | cbn [rank]; bal]
   | |- Bal _ _ _ (try_finally (mbind (acquire ?c ?x) _) (release ?c ?x)) _ =>
-      apply Bal_bracket_in; [auto with bal | cbn [rank]; bal]
+      apply Bal_bracket_in; [discriminate | auto with fbal | cbn [rank]; bal]
   | |- Bal _ _ _ (mbind (acquire ?c ?x) (fun _ => try_finally _ (release ?c ?x))) _ =>
-      apply Bal_bracket_out; [auto with bal | cbn [rank]; bal]
+      apply Bal_bracket_out; [discriminate | auto with fbal | cbn [rank]; bal]
   | |- Bal _ _ _ (mbind _ _) _ =>
-      first [ eapply Bal_mbind; [solve [eauto 4 with bal] | intros ? ?; bal]
+      first [ eapply Bal_mbind; [solve [eauto 4 with fbal] | intros ? ?; bal]
             | eapply Bal_mbind with (P1 := Forall nontmp); [bal | intros ? ?; bal]
             | eapply Bal_mbind with (P1 := TT); [bal | intros ? ?; bal] ]
   | |- Bal _ _ _ (catch _) _ => apply Bal_catch_TT; bal
   | |- Bal _ _ _ (try_finally _ _) _ => eapply Bal_try_finally; bal
   | |- Bal _ _ _ (unit_op _) _ => first [solve [op_side] | idtac]
   | |- Bal _ _ _ (swallow_op _) _ => first [solve [op_side] | idtac]
-  | |- _ => first [solve [eauto 4 with bal] | solve [eapply Bal_TT; eauto 4 with bal] | idtac]
+  | |- _ => first [solve [eauto 4 with fbal] | solve [eapply Bal_TT; eauto 4 with fbal] | idtac]
   end.
 
 Section API2.
@@ -569,33 +455,33 @@ Section API2.
     intros. unfold read_lines. eapply Bal_mbind; [apply Bal_read|].
     intros x Hc. destruct x; simpl in Hc; try contradiction; bal.
   Qed.
-  Hint Resolve Bal_read_cid Bal_read_lines : bal.
+  Hint Resolve Bal_read_cid Bal_read_lines : fbal.
 
   Lemma Bal_is_in_refs : forall kp R p c, Bal kp i R (is_in_refs p (ACidRef c)) TT.
   Proof. intros. unfold is_in_refs. bal. Qed.
-  Hint Resolve Bal_is_in_refs : bal.
+  Hint Resolve Bal_is_in_refs : fbal.
 
   Lemma Bal_find_object : forall kp R p, Bal kp i R (find_object p) TT.
   Proof. intros. unfold find_object. bal. Qed.
-  Hint Resolve Bal_find_object : bal.
+  Hint Resolve Bal_find_object : fbal.
 
   Lemma Bal_open_object : forall kp R c, Bal kp i R (open_object c) TT.
   Proof. intros. unfold open_object. bal. Qed.
-  Hint Resolve Bal_open_object : bal.
+  Hint Resolve Bal_open_object : fbal.
 
   Lemma Bal_retrieve_object : forall kp R p, Bal kp i R (retrieve_object p) TT.
   Proof. intros. unfold retrieve_object. bal. Qed.
 
   Lemma Bal_get_hex_digest : forall kp R p, Bal kp i R (get_hex_digest p) TT.
   Proof. intros. unfold get_hex_digest. bal. Qed.
-  Hint Resolve Bal_retrieve_object Bal_get_hex_digest : bal.
+  Hint Resolve Bal_retrieve_object Bal_get_hex_digest : fbal.
 
   Lemma Bal_rename_for_deletion : forall kp R a, nontmp a -> Bal kp i R (rename_for_deletion a) nontmp.
   Proof.
     intros. unfold rename_for_deletion.
     eapply Bal_mbind; [op_side|]. intros ? ?. bal.
   Qed.
-  Hint Resolve Bal_rename_for_deletion : bal.
+  Hint Resolve Bal_rename_for_deletion : fbal.
 
   Lemma Bal_delete_marked : forall kp R l, Forall nontmp l -> Bal kp i R (delete_marked l) TT.
   Proof.
@@ -603,7 +489,7 @@ Section API2.
     - bal.
     - inversion Hl; subst. eapply Bal_mbind; [op_side|]. intros. apply IH. assumption.
   Qed.
-  Hint Resolve Bal_delete_marked : bal.
+  Hint Resolve Bal_delete_marked : fbal.
 
   Lemma Bal_update_refs_remove : forall kp R c p, R <= 3 ->
     Bal kp i R (update_refs_remove (ACidRef c) p) TT.
@@ -616,14 +502,14 @@ Section API2.
   Proof.
     intros. unfold update_refs_add. bal.
   Qed.
-  Hint Resolve Bal_update_refs_remove Bal_update_refs_add : bal.
+  Hint Resolve Bal_update_refs_remove Bal_update_refs_add : fbal.
 
   Lemma Bal_verify_refs : forall kp R p c, Bal kp i R (verify_refs p c) TT.
   Proof. intros. unfold verify_refs. bal. Qed.
 
   Lemma Bal_validate : forall kp R c c', Bal kp i R (validate_and_check_cid_lock c c') TT.
   Proof. intros. unfold validate_and_check_cid_lock. bal. Qed.
-  Hint Resolve Bal_verify_refs Bal_validate : bal.
+  Hint Resolve Bal_verify_refs Bal_validate : fbal.
 
   Lemma Bal_mark_pid_refs : forall kp R p, Bal kp i R (mark_pid_refs p) (Forall nontmp).
   Proof.
@@ -640,15 +526,15 @@ Section API2.
     - apply Bal_catch. bal.
     - intros [l|e] Hl; apply Bal_ret; auto.
   Qed.
-  Hint Resolve Bal_mark_pid_refs Bal_remove_pid_and_handle_cid : bal.
+  Hint Resolve Bal_mark_pid_refs Bal_remove_pid_and_handle_cid : fbal.
 
   Lemma Forall_app_intro : forall (P : addr -> Prop) l1 l2, Forall P l1 -> Forall P l2 -> Forall P (l1 ++ l2).
   Proof. intros. apply Forall_app. split; assumption. Qed.
-  Hint Resolve Forall_app_intro : bal.
+  Hint Resolve Forall_app_intro : fbal.
 
   Lemma Bal_untag_object : forall kp R p c, R <= 3 -> Bal kp i R (untag_object p c) TT.
   Proof. intros. unfold untag_object. bal. Qed.
-  Hint Resolve Bal_untag_object : bal.
+  Hint Resolve Bal_untag_object : fbal.
 
   Lemma Bal_write_chunks : forall kp R t n, mine i t -> Bal kp i R (write_chunks t n) TT.
   Proof.
@@ -656,20 +542,20 @@ Section API2.
     - bal.
     - eapply Bal_mbind; [op_side|]. intros ? ?. apply IH. assumption.
   Qed.
-  Hint Resolve Bal_write_chunks : bal.
+  Hint Resolve Bal_write_chunks : fbal.
 
   Lemma Bal_open_source : forall kp R s, Bal kp i R (open_source s) TT.
   Proof. intros. unfold open_source. bal. Qed.
-  Hint Resolve Bal_open_source : bal.
+  Hint Resolve Bal_open_source : fbal.
 
   Lemma Bal_delete_object_file : forall kp R c, Bal kp i R (delete_object_file c) TT.
   Proof. intros. unfold delete_object_file. bal. Qed.
-  Hint Resolve Bal_delete_object_file : bal.
+  Hint Resolve Bal_delete_object_file : fbal.
 
   Lemma Bal_verify_object : forall kp R g ar n sz ck, ar <> ArRefs ->
     Bal kp i R (verify_object g (ATmp ar i n) sz ck) TT.
   Proof. intros. unfold verify_object. destruct ar; try congruence; bal. Qed.
-  Hint Resolve Bal_verify_object : bal.
+  Hint Resolve Bal_verify_object : fbal.
 
   Lemma Bal_move_and_get_checksums : forall kp R p b n sz ck,
     Bal kp i R (move_and_get_checksums p b n sz ck) TT.
@@ -678,7 +564,7 @@ Section API2.
     assert (ArObj <> ArRefs) by discriminate.
     bal.
   Qed.
-  Hint Resolve Bal_move_and_get_checksums : bal.
+  Hint Resolve Bal_move_and_get_checksums : fbal.
 
   (* ---- the tagging path: knowledge about the two reference temp files is needed ---- *)
 
@@ -763,7 +649,7 @@ Section API2.
       + apply kdrop_In_keep; [left; reflexivity | congruence].
       + eapply (@Br_of_Bal _ false R _ TT); [bal | exact Hh].
   Qed.
-  Hint Resolve Bal_store_refs_body : bal.
+  Hint Resolve Bal_store_refs_body : fbal.
 
   Lemma Bal_tag_object : forall R p c, R <= 1 -> Bal false i R (tag_object p c) TT.
   Proof.
@@ -785,7 +671,7 @@ Section API2.
     intros a ->. cbn [Br ret next_h next_k]. rewrite remove1_head.
     destruct r; reflexivity.
   Qed.
-  Hint Resolve Bal_tag_object : bal.
+  Hint Resolve Bal_tag_object : fbal.
 
   Lemma Bal_store_object : forall p s b n sz ck, Bal false i 0 (store_object p s b n sz ck) TT.
   Proof. intros. unfold store_object. bal. Qed.
@@ -801,19 +687,21 @@ Section API2.
       eapply Bal_mbind; [apply IH; assumption|]. intros r Hr.
       apply Bal_ret. destruct b; auto.
   Qed.
-  Hint Resolve Bal_probe_all : bal.
+  Hint Resolve Bal_probe_all : fbal.
 
   Lemma Bal_bracket_out_bind : forall A B kp R cls x (body : M A) (f : A -> M B) P1 P,
+    cls <> LFile ->
     R <= rank cls -> Bal kp i (S (rank cls)) body P1 ->
     (forall d, P1 d -> Bal kp i R (f d) P) ->
     Bal kp i R (acquire cls x ;;; (d <- try_finally body (release cls x) ;; f d)) P.
   Proof.
-    intros A B kp R cls x body f P1 P HR Hb Hf h kn Hh. apply Br_mbind.
-    simpl. split; [eapply lt_all_mono; eauto|].
-    intros a ->. simpl. apply Br_mbind. apply Br_try_finally.
+    intros A B kp R cls x body f P1 P NF HR Hb Hf h kn Hh. apply Br_mbind.
+    cbn [acquire Br]. split; [simpl; eapply lt_all_mono; eauto|].
+    lock_ans. cbn [Br ret next_h next_k]. apply Br_mbind. apply Br_try_finally.
     eapply Br_mono; [apply Hb; apply lt_all_cons; [lia | eapply lt_all_mono; [|exact Hh]; lia]|].
-    simpl. intros r h' kn' (-> & H2 & H3).
-    split; [left; reflexivity|]. intros a ->. simpl. rewrite lock_eqb_refl.
+    cbn beta. intros r h' kn' (-> & H2 & H3).
+    cbn [release Br]. split; [left; reflexivity|]. lock_ans.
+    cbn [Br ret next_h next_k]. rewrite remove1_head.
     destruct r as [d|e].
     - eapply Br_mono; [apply Hf; auto|]. simpl.
       intros r h'' kn'' (-> & H2' & H3'). repeat split; auto.
@@ -841,18 +729,18 @@ Section API2.
     induction l as [|a l IH]; intros HR Hl; simpl.
     - bal.
     - inversion Hl; subst.
-      eapply Bal_bracket_out_bind with (P1 := Forall nontmp); [simpl; lia | cbn [rank] |].
+      eapply Bal_bracket_out_bind with (P1 := Forall nontmp); [discriminate | simpl; lia | cbn [rank] |].
       { eapply Bal_mbind; [apply Bal_probe|]. intros b _.
         destruct b; [apply Bal_mark_one; assumption | bal]. }
       intros d Hd.
       eapply Bal_mbind; [apply IH; assumption|]. intros r Hr.
       apply Bal_ret. apply Forall_app. split; assumption.
   Qed.
-  Hint Resolve Bal_mark_docs : bal.
+  Hint Resolve Bal_mark_docs : fbal.
 
   Lemma Bal_delete_metadata : forall kp R p f, R <= 3 -> Bal kp i R (delete_metadata p f) TT.
   Proof. intros. unfold delete_metadata. bal. Qed.
-  Hint Resolve Bal_delete_metadata : bal.
+  Hint Resolve Bal_delete_metadata : fbal.
 
   Lemma Bal_delete_object : forall kp p, Bal kp i 0 (delete_object p) TT.
   Proof. intros. unfold delete_object. bal. Qed.
@@ -863,7 +751,7 @@ Section API2.
   Lemma Bal_store_metadata : forall kp p f s v n, Bal kp i 0 (store_metadata p f s v n) TT.
   Proof.
     intros. unfold store_metadata.
-    apply Bal_bracket_out; [simpl; lia|]. cbn [rank].
+    apply Bal_bracket_out; [discriminate | simpl; lia|]. cbn [rank].
     eapply Bal_mbind; [apply Bal_open_source|]. intros _ _.
     apply Bal_mktmp_bind. intros n0. bal.
   Qed.
@@ -873,13 +761,13 @@ Section API2.
 
   Lemma Bal_delete_object_only : forall kp R c, R <= 2 -> Bal kp i R (delete_object_only c) TT.
   Proof. intros. unfold delete_object_only. bal. Qed.
-  Hint Resolve Bal_delete_object_only : bal.
+  Hint Resolve Bal_delete_object_only : fbal.
 
   Lemma Bal_delete_if_invalid : forall kp c sz pre ok, Bal kp i 0 (delete_if_invalid c sz pre ok) TT.
   Proof. intros. unfold delete_if_invalid. bal. Qed.
 
   Hint Resolve Bal_store_object Bal_delete_object Bal_delete_object_unfixed Bal_store_metadata
-    Bal_retrieve_metadata Bal_delete_if_invalid : bal.
+    Bal_retrieve_metadata Bal_delete_if_invalid : fbal.
 
   Theorem api_balanced : forall c, Bal false i 0 (api c) TT.
   Proof.
@@ -897,339 +785,67 @@ End API2.
 (* §4  one operation against the real semantics                                            *)
 (* ====================================================================================== *)
 
-(* reference files hold reference content *)
-Definition ok_at (a : addr) (v : fcontent) : Prop :=
-  match a with
-  | APidRef _ => has_kind v KCid
-  | ACidRef _ => has_kind v KLines
-  | _ => True
-  end.
-
-Definition refs_typed (m : fmap) : Prop := forall a v, lookup a m = Some v -> ok_at a v.
-
-Lemma well_typed_refs_typed : forall m, well_typed m -> refs_typed m.
-Proof.
-  intros m H a v Hl. specialize (H a v Hl). destruct a; simpl; auto.
-  - destruct H as [c ->]. exact I.
-  - destruct H as [l ->]. exact I.
-Qed.
-
-Lemma refs_typed_nil : refs_typed [].
-Proof. intros a v H. discriminate. Qed.
-
-(* the knowledge of thread i is true of the file map *)
-Definition KInv (i : nat) (kn : knowl) (m : fmap) : Prop :=
-  forall a k, In (a, k) kn ->
-    (exists n, a = ATmp ArRefs i n) /\ exists c, lookup a m = Some c /\ has_kind c k.
-
-Lemma KInv_nil : forall i m, KInv i [] m.
-Proof. intros i m a k []. Qed.
-
-Lemma refs_typed_update : forall m a v, refs_typed m -> ok_at a v -> refs_typed (update a v m).
-Proof.
-  intros m a v H Hv b u Hl. rewrite lookup_update in Hl.
-  destruct (addr_eqb b a) eqn:E.
-  - apply addr_eqb_true in E. subst. inversion Hl; subst. exact Hv.
-  - eapply H; eauto.
-Qed.
-
-Lemma refs_typed_delete : forall m a, refs_typed m -> refs_typed (delete a m).
-Proof.
-  intros m a H b u Hl. rewrite lookup_delete in Hl.
-  destruct (addr_eqb b a); [discriminate|]. eapply H; eauto.
-Qed.
-
-Lemma KInv_sub : forall i kn kn' m, KInv i kn m -> (forall a k, In (a, k) kn' -> In (a, k) kn) -> KInv i kn' m.
-Proof. intros i kn kn' m H Hs a k Hin. apply H. apply Hs. exact Hin. Qed.
-
-Lemma KInv_kdrop : forall i kn m a, KInv i kn m -> KInv i (kdrop a kn) m.
-Proof. intros. eapply KInv_sub; eauto. intros. eapply kdrop_In; eauto. Qed.
-
-(* a map that agrees with m on the files the knowledge speaks of *)
-Lemma KInv_agree : forall i kn m m',
-  KInv i kn m -> (forall a k, In (a, k) kn -> lookup a m' = lookup a m) -> KInv i kn m'.
-Proof.
-  intros i kn m m' H Hag a k Hin. destruct (H a k Hin) as [Hn (c & Hc & Hk)].
-  split; auto. exists c. split; auto. rewrite (Hag a k Hin). exact Hc.
-Qed.
-
-Lemma kdrop_key_neq : forall i kn m s b k, KInv i kn m -> In (b, k) (kdrop s kn) -> b <> s.
-Proof.
-  intros i kn m s b k H Hin.
-  assert (Hb := kdrop_In _ _ _ _ Hin). destruct (H b k Hb) as [[n ->] _].
-  destruct s; try discriminate. destruct ar; try discriminate.
-  eapply kdrop_In_neq. exact Hin.
-Qed.
-
-(* --- fresh temp names are absent --- *)
-
-Lemma fresh_from_spec : forall ar t m fuel n,
-  lookup (ATmp ar t (fresh_from ar t m n fuel)) m = None \/
-  (forall k, n <= k < n + fuel -> lookup (ATmp ar t k) m <> None).
-Proof.
-  induction fuel as [|fuel IH]; intros n; simpl.
-  - right. intros; lia.
-  - destruct (lookup (ATmp ar t n) m) eqn:E.
-    + destruct (IH (S n)) as [H|H]; [left; exact H|]. right. intros k Hk.
-      destruct (Nat.eq_dec k n); [subst; congruence | apply H; lia].
-    + left. exact E.
-Qed.
-
-Lemma NoDup_tmp_seq : forall ar t n a, NoDup (map (fun k => ATmp ar t k) (seq a n)).
-Proof.
-  induction n as [|n IH]; intros a; simpl; constructor; auto.
-  intros H. apply in_map_iff in H. destruct H as (k & E & Hk).
-  inversion E; subst. apply in_seq in Hk. lia.
-Qed.
-
-Lemma fresh_tmp_absent : forall ar t m, lookup (fresh_tmp ar t m) m = None.
-Proof.
-  intros. unfold fresh_tmp.
-  destruct (fresh_from_spec ar t m (S (length m)) 0) as [H|H]; auto.
-  exfalso.
-  assert (Hincl : incl (map (fun k => ATmp ar t k) (seq 0 (S (length m)))) (keys m)).
-  { intros a Ha. apply in_map_iff in Ha. destruct Ha as (k & <- & Hk). apply in_seq in Hk.
-    destruct (lookup (ATmp ar t k) m) eqn:E.
-    - eapply lookup_Some_In_keys; eauto.
-    - exfalso. apply (H k); [lia | exact E]. }
-  apply NoDup_incl_length in Hincl; [|apply NoDup_tmp_seq].
-  rewrite map_length, seq_length in Hincl. unfold keys in Hincl. rewrite map_length in Hincl. lia.
-Qed.
-
-(* --- lists of locks --- *)
-
-Lemma In_remove1 : forall (x l : lock) L, In l (remove1 lock_eqb x L) -> In l L.
-Proof.
-  induction L as [|y L IH]; simpl; auto.
-  destruct (lock_eqb x y); intros H; auto. destruct H; auto.
-Qed.
-
-Lemma In_remove1_neq : forall (x l : lock) L, In l L -> l <> x -> In l (remove1 lock_eqb x L).
-Proof.
-  induction L as [|y L IH]; simpl; auto.
-  intros H Hne. destruct (lock_eqb x y) eqn:E.
-  - apply lock_eqb_true in E. subst y. destruct H; [congruence|auto].
-  - destruct H; [left; auto | right; auto].
-Qed.
-
-Lemma NoDup_remove1 : forall (x : lock) L, NoDup L -> NoDup (remove1 lock_eqb x L).
-Proof.
-  induction L as [|y L IH]; simpl; intros H; auto.
-  inversion H; subst. destruct (lock_eqb x y); auto.
-  constructor; auto. intros Hin. apply In_remove1 in Hin. contradiction.
-Qed.
-
-Lemma NoDup_remove1_notin : forall (x : lock) L, NoDup L -> ~ In x (remove1 lock_eqb x L).
-Proof.
-  induction L as [|y L IH]; simpl; intros H; auto.
-  inversion H; subst. destruct (lock_eqb x y) eqn:E.
-  - apply lock_eqb_true in E. subst. assumption.
-  - intros [->|Hin]; [rewrite lock_eqb_refl in E; discriminate | apply IH; auto].
-Qed.
-
-Lemma memb_lock_In : forall (x : lock) L, memb lock_eqb x L = true <-> In x L.
-Proof. intros. apply memb_In; [apply lock_eqb_true | apply lock_eqb_refl]. Qed.
-
-Lemma memb_lock_notIn : forall (x : lock) L, memb lock_eqb x L = false <-> ~ In x L.
-Proof. intros. apply memb_false_not_In; [apply lock_eqb_true | apply lock_eqb_refl]. Qed.
-
-(* --- the effect of one operation --- *)
-
-Definition locks_step (o : op) (L L' : list lock) : Prop :=
+(* the effect of one operation, answered by a, on the lock list of the world.  NEW: a failed flock
+   changes nothing; a close of a flock that is not held changes nothing *)
+Definition locks_step (o : op) (a : ans) (L L' : list lock) : Prop :=
   match o with
-  | Acquire cls x => ~ In (cls, x) L /\ L' = (cls, x) :: L
-  | Release cls x => In (cls, x) L /\ L' = remove1 lock_eqb (cls, x) L
+  | Acquire cls x =>
+      (a = AUnit /\ ~ In (cls, x) L /\ L' = (cls, x) :: L) \/ (cls = LFile /\ a <> AUnit /\ L' = L)
+  | Release cls x =>
+      (In (cls, x) L /\ L' = remove1 lock_eqb (cls, x) L) \/ (cls = LFile /\ ~ In (cls, x) L /\ L' = L)
   | _ => L' = L
   end.
 
-Lemma mine_neq : forall i a b, mine i a -> ~ mine i b -> b <> a.
-Proof. intros i a b Ha Hb E. subst. contradiction. Qed.
-
-Lemma has_kind_ok_at : forall a v v', ok_at a v -> (forall k, has_kind v k -> has_kind v' k) -> ok_at a v'.
-Proof. intros a v v' H Hk. destruct a; unfold ok_at in *; auto. Qed.
-
-(* an update of a present file that preserves its kind *)
-Lemma kindpres_update : forall i kn m a v v',
-  refs_typed m -> KInv i kn m -> lookup a m = Some v ->
-  (forall k, has_kind v k -> has_kind v' k) ->
-  refs_typed (update a v' m) /\ KInv i kn (update a v' m).
-Proof.
-  intros i kn m a v v' Hrt Hk Hl Hp. split.
-  - apply refs_typed_update; auto. eapply has_kind_ok_at; eauto.
-  - intros b k Hin. destruct (Hk b k Hin) as [Hn (c & Hc & Hkc)]. split; auto.
-    rewrite lookup_update. destruct (addr_eqb b a) eqn:E.
-    + apply addr_eqb_true in E. subst b. exists v'. split; auto. apply Hp. congruence.
-    + exists c. auto.
-Qed.
-
-Lemma other_frame_update : forall i a v m b, mine i a -> ~ mine i b -> lookup b (update a v m) = lookup b m.
-Proof. intros. apply lookup_update_neq. eapply mine_neq; eauto. Qed.
-
-Lemma other_frame_delete : forall i a m b, mine i a -> ~ mine i b -> lookup b (delete a m) = lookup b m.
-Proof. intros. apply lookup_delete_neq. eapply mine_neq; eauto. Qed.
-
-Local Ltac split5 := split; [|split; [|split; [|split]]].
-
+(* [h] is the thread's view: its identifier locks are in the world; an LFile entry may be a ghost *)
 Theorem exec_op_sound : forall i h kn o w a w',
-  refs_typed (fs w) -> KInv i kn (fs w) -> (forall l, In l h -> In l (locks w)) ->
+  refs_typed (fs w) -> KInv i kn (fs w) ->
+  (forall l, In l h -> fst l <> LFile -> In l (locks w)) ->
   pre i h kn o -> exec_op i o w = Some (a, w') ->
   ans_ok i kn o a /\
   refs_typed (fs w') /\
   KInv i (next_k kn o a) (fs w') /\
   (forall b, ~ mine i b -> lookup b (fs w') = lookup b (fs w)) /\
-  locks_step o (locks w) (locks w').
+  locks_step o a (locks w) (locks w').
 Proof.
   intros i h kn o w a w' Hrt Hk Hh Hpre Hex.
-  destruct o; simpl in Hex; simpl next_k; unfold locks_step.
-  - (* Probe *) inversion Hex; subst. simpl. auto.
-  - (* SizeLines *)
-    destruct (lookup a0 (fs w)) as [[]|]; inversion Hex; subst; simpl; auto.
-  - (* Read *)
-    destruct (lookup a0 (fs w)) as [c|] eqn:E; inversion Hex; subst; simpl; split5; auto.
-    specialize (Hrt _ _ E). destruct a0; simpl in *; auto.
-  - (* OpenSrc *) inversion Hex; subst. simpl. auto.
-  - (* MkTmp *)
-    inversion Hex; subst. clear Hex. simpl fs. simpl locks.
-    assert (Hab := fresh_tmp_absent ar i (fs w)).
-    assert (Hfr : forall k, ~ In (fresh_tmp ar i (fs w), k) kn).
-    { intros k Hin. destruct (Hk _ _ Hin) as [_ (c & Hc & _)]. congruence. }
-    split5; auto.
-    + simpl. split; auto. unfold fresh_tmp. eauto.
-    + apply refs_typed_update; auto.
-    + eapply KInv_agree; [exact Hk|]. intros b k Hin. apply lookup_update_neq.
-      intros ->. eapply Hfr; eauto.
-    + intros b Hb. apply lookup_update_neq. intros ->. apply Hb. unfold fresh_tmp. reflexivity.
-  - (* WriteChunk *)
-    simpl in Hpre.
-    destruct (lookup t (fs w)) as [[b n j| | |]|] eqn:E; inversion Hex; subst; simpl; auto.
-    destruct (@kindpres_update _ _ _ _ _ (CData b n (S j)) Hrt Hk E) as [H1 H2]; [destruct k; simpl; auto|].
-    split5; auto. intros; eapply other_frame_update; eauto.
-  - (* OpenWr *)
-    inversion Hex; subst. clear Hex. simpl fs. simpl locks.
-    destruct Hpre as (ar & n & ->).
-    split5; auto.
-    + simpl. exact I.
-    + apply refs_typed_update; auto. exact I.
-    + unfold kset. destruct ar.
-      * eapply KInv_agree; [exact Hk|]. intros b k Hin. apply lookup_update_neq.
-        destruct (Hk _ _ Hin) as [[n' ->] _]. discriminate.
-      * eapply KInv_agree; [exact Hk|]. intros b k Hin. apply lookup_update_neq.
-        destruct (Hk _ _ Hin) as [[n' ->] _]. discriminate.
-      * assert (Hrest : KInv i (kdrop (ATmp ArRefs i n) kn) (update (ATmp ArRefs i n) c (fs w))).
-        { eapply KInv_agree; [apply KInv_kdrop; exact Hk|]. intros b k Hin.
-          apply lookup_update_neq. eapply kdrop_In_neq. exact Hin. }
-        destruct (kind_of c) as [k0|] eqn:Ek; auto.
-        intros b k [E|Hin]; [|apply Hrest; exact Hin].
-        inversion E; subst. split; [eauto|]. exists c. split; [apply lookup_update_eq|].
-        apply kind_of_has. exact Ek.
-    + intros b Hb. eapply other_frame_update; eauto. reflexivity.
-  - (* Rename *)
-    destruct Hpre as [Hs Hd].
-    destruct (lookup src (fs w)) as [c|] eqn:E; inversion Hex; subst; clear Hex; simpl fs; simpl locks.
-    + assert (Hdm : mine i dst) by (destruct dst; simpl; auto; contradiction).
-      split5; auto.
-      * simpl. exact I.
-      * apply refs_typed_update; [apply refs_typed_delete; auto|].
-        destruct dst; simpl; auto.
-        -- destruct (Hk _ _ Hd) as [_ (c' & Hc' & Hkc)]. rewrite E in Hc'. inversion Hc'; subst. exact Hkc.
-        -- destruct (Hk _ _ Hd) as [_ (c' & Hc' & Hkc)]. rewrite E in Hc'. inversion Hc'; subst. exact Hkc.
-      * eapply KInv_agree; [apply KInv_kdrop; exact Hk|]. intros b k Hin.
-        assert (Hbs : b <> src) by (eapply kdrop_key_neq; eauto).
-        assert (Hbd : b <> dst).
-        { destruct (Hk b k (kdrop_In _ _ _ _ Hin)) as [[n ->] _]. intros <-. simpl in Hd. exact Hd. }
-        rewrite lookup_update_neq by exact Hbd. apply lookup_delete_neq. exact Hbs.
-      * intros b Hb. rewrite (@other_frame_update i dst c _ b Hdm Hb). eapply other_frame_delete; eauto.
-    + split5; auto. simpl; exact I. apply KInv_kdrop; auto.
-  - (* Remove *)
-    simpl in Hpre.
-    destruct (lookup a0 (fs w)) as [c|] eqn:E; inversion Hex; subst; clear Hex; simpl fs; simpl locks.
-    + split5; auto.
-      * simpl; exact I.
-      * apply refs_typed_delete; auto.
-      * eapply KInv_agree; [apply KInv_kdrop; exact Hk|]. intros b k Hin.
-        apply lookup_delete_neq. eapply kdrop_key_neq; eauto.
-      * intros b Hb. eapply other_frame_delete; eauto.
-    + split5; auto. simpl; exact I. apply KInv_kdrop; auto.
-  - (* MkDirs *) inversion Hex; subst. simpl. auto.
-  - (* ListDir *)
-    inversion Hex; subst. simpl. split5; auto.
-    apply Forall_forall. intros x Hx. apply filter_In in Hx. destruct Hx as [_ Hx].
-    unfold owned_by in Hx. destruct x; simpl in Hx; try discriminate; exact I.
-  - (* AppendOpen *)
-    simpl in Hpre. destruct a0; try contradiction.
-    destruct (lookup (ACidRef c) (fs w)) eqn:E; inversion Hex; subst; clear Hex; simpl fs; simpl locks.
-    + split5; auto.
-    + split5; auto.
-      * apply refs_typed_update; auto.
-      * eapply KInv_agree; [exact Hk|]. intros b k Hin. apply lookup_update_neq.
-        destruct (Hk _ _ Hin) as [[n' ->] _]. discriminate.
-      * intros b Hb. eapply other_frame_update; eauto.
-  - (* AppendWrite *)
-    simpl in Hpre.
-    destruct (lookup a0 (fs w)) as [[b n j| |l|]|] eqn:E; inversion Hex; subst; simpl; auto.
-    + destruct (@kindpres_update _ _ _ _ _ (CLines (l ++ [p])) Hrt Hk E) as [H1 H2]; [destruct k; simpl; auto|].
-      split5; auto. intros; eapply other_frame_update; eauto.
-    + destruct (@kindpres_update _ _ _ _ _ (CLines [p]) Hrt Hk E) as [H1 H2]; [destruct k; simpl; auto|].
-      split5; auto. intros; eapply other_frame_update; eauto.
-  - (* OpenRW *)
-    destruct (lookup a0 (fs w)); inversion Hex; subst; simpl; auto.
-  - (* RewriteWrite *)
-    simpl in Hpre.
-    destruct (lookup a0 (fs w)) as [[b n j| |l|]|] eqn:E; inversion Hex; subst; simpl; auto.
-    match goal with |- context [update a0 ?v _] =>
-      destruct (@kindpres_update _ _ _ _ _ (v) Hrt Hk E) as [H1 H2]; [destruct k; simpl; auto|] end.
-    split5; auto. intros; eapply other_frame_update; eauto.
-  - (* Truncate *)
-    simpl in Hpre.
-    destruct (lookup a0 (fs w)) as [[b n j| |l|]|] eqn:E; inversion Hex; subst; simpl; auto.
-    match goal with |- context [update a0 ?v _] =>
-      destruct (@kindpres_update _ _ _ _ _ (v) Hrt Hk E) as [H1 H2]; [destruct k; simpl; auto|] end.
-    split5; auto. intros; eapply other_frame_update; eauto.
-  - (* Acquire *)
-    destruct (memb lock_eqb (cls, i0) (locks w)) eqn:E; inversion Hex; subst. simpl.
-    apply memb_lock_notIn in E. split5; auto.
-  - (* Release *)
-    simpl in Hpre. apply Hh in Hpre.
-    assert (E : memb lock_eqb (cls, i0) (locks w) = true) by (apply memb_lock_In; exact Hpre).
-    rewrite E in Hex. inversion Hex; subst. simpl. split5; auto.
-  - (* Peek *) inversion Hex; subst. simpl. auto.
-  - (* Held *) inversion Hex; subst. simpl. auto.
+  assert (Hother : (forall cls x, o <> Release cls x) ->
+    ans_ok i kn o a /\ refs_typed (fs w') /\ KInv i (next_k kn o a) (fs w') /\
+    (forall b, ~ mine i b -> lookup b (fs w') = lookup b (fs w)) /\
+    locks_step o a (locks w) (locks w')).
+  { intros Hnr.
+    assert (Hpre0 : pre i [] kn o).
+    { destruct o; simpl in *; auto. - apply lt_all_nil. - exfalso. eapply Hnr. reflexivity. }
+    destruct (@Bracket.exec_op_sound i [] kn o w a w' Hrt Hk (fun l (F : In l []) => match F with end) Hpre0 Hex)
+      as (H1 & H2 & H3 & H4 & H5).
+    split; [apply ans_ok_weaken; exact H1|]. split; [exact H2|]. split; [exact H3|]. split; [exact H4|].
+    destruct o; simpl in H5 |- *; auto. }
+  destruct o; try (apply Hother; discriminate).
+  (* Release *)
+  simpl in Hpre, Hex.
+  destruct (memb lock_eqb (cls, i0) (locks w)) eqn:E; inversion Hex; subst; clear Hex.
+  - apply memb_lock_In in E. simpl.
+    split; [destruct cls; simpl; auto|]. split; [exact Hrt|]. split; [exact Hk|]. split; [auto|].
+    left. split; auto.
+  - apply memb_lock_notIn in E.
+    assert (cls = LFile).
+    { destruct cls; auto; exfalso; apply E; apply Hh; auto; simpl; discriminate. }
+    subst cls. simpl. split; [exact I|]. split; [exact Hrt|]. split; [exact Hk|]. split; [auto|].
+    right. repeat split; auto.
 Qed.
 
 (* ====================================================================================== *)
 (* §5  pools of threads: steps with faults, the invariant, preservation                    *)
 (* ====================================================================================== *)
 
-Lemma resume_app : forall A (h1 h2 : list ans) (m : prog A),
-  resume m (h1 ++ h2) = match resume m h1 with Some m' => resume m' h2 | None => None end.
-Proof.
-  induction h1 as [|a h1 IH]; intros h2 m; destruct m; simpl; auto.
-Qed.
-
-Lemma resume_nil : forall A (m : prog A), resume m [] = Some m.
-Proof. destruct m; reflexivity. Qed.
-
-Lemma upd_nth_length : forall A i (x : A) l, length (upd_nth i x l) = length l.
-Proof. induction i; destruct l; simpl; auto. Qed.
-
-Lemma nth_error_upd_nth_eq : forall A i (x : A) l, i < length l -> nth_error (upd_nth i x l) i = Some x.
-Proof.
-  induction i; destruct l; simpl; intros H; try lia; auto. apply IHi. lia.
-Qed.
-
-Lemma nth_error_upd_nth_neq : forall A i j (x : A) l, j <> i -> nth_error (upd_nth i x l) j = nth_error l j.
-Proof.
-  induction i; destruct l; destruct j; simpl; intros H; try congruence; auto.
-Qed.
-
-(* the lock part of the invariant: the lock lists of the world are exactly the disjoint union
-   of what the threads hold *)
+(* the lock part of the invariant.  Identifier locks: the world holds exactly the disjoint union
+   of the views.  File locks: every flock of the world is in some view (a view may carry a ghost
+   entry after a failed flock, or an entry that another thread's close has taken away). *)
 Definition LInv (H : nat -> list lock) (L : list lock) : Prop :=
   NoDup L /\
   (forall i, NoDup (H i)) /\
-  (forall i l, In l (H i) -> In l L) /\
+  (forall i l, In l (H i) -> fst l <> LFile -> In l L) /\
   (forall l, In l L -> exists i, In l (H i)) /\
-  (forall i j l, In l (H i) -> In l (H j) -> i = j).
+  (forall i j l, fst l <> LFile -> In l (H i) -> In l (H j) -> i = j).
 
 Lemma LInv_ext : forall H H' L, (forall j, H' j = H j) -> LInv H L -> LInv H' L.
 Proof.
@@ -1240,94 +856,121 @@ Proof.
   - intros i j l. rewrite !E. eauto.
 Qed.
 
-Definition upd_fun {B} (f : nat -> B) (i : nat) (x : B) : nat -> B :=
-  fun j => if Nat.eqb j i then x else f j.
+Lemma rank_not_lt_all : forall cls x h, lt_all (rank cls) h -> ~ In (cls, x) h.
+Proof. intros cls x h H Hin. specialize (H _ Hin). simpl in H. lia. Qed.
 
-Lemma upd_fun_eq : forall B (f : nat -> B) i x, upd_fun f i x i = x.
-Proof. intros. unfold upd_fun. rewrite Nat.eqb_refl. reflexivity. Qed.
-Lemma upd_fun_neq : forall B (f : nat -> B) i j x, j <> i -> upd_fun f i x j = f j.
-Proof. intros. unfold upd_fun. destruct (Nat.eqb j i) eqn:E; auto. apply Nat.eqb_eq in E. congruence. Qed.
-
-Lemma LInv_step : forall H L L' i o,
+Lemma LInv_step : forall H L L' i o a,
   LInv H L ->
   (forall cls x, o = Release cls x -> In (cls, x) (H i)) ->
-  locks_step o L L' ->
+  (forall cls x, o = Acquire cls x -> lt_all (rank cls) (H i)) ->
+  locks_step o a L L' ->
   LInv (upd_fun H i (next_h (H i) o)) L'.
 Proof.
-  intros H L L' i o HL Hrel Hst.
+  intros H L L' i o a HL Hrel Hacq Hst.
   assert (Hneutral : L' = L -> next_h (H i) o = H i -> LInv (upd_fun H i (next_h (H i) o)) L').
   { intros -> E. eapply LInv_ext; [|exact HL]. intros j. unfold upd_fun.
     destruct (Nat.eqb j i) eqn:Ej; auto. apply Nat.eqb_eq in Ej. subst. exact E. }
   destruct HL as (H1 & H2 & H3 & H4 & H5).
   destruct o; try (apply Hneutral; [exact Hst | reflexivity]); simpl in Hst; simpl next_h.
   - (* Acquire *)
-    destruct Hst as [Hnin ->]. set (x := (cls, i0)) in *.
-    repeat split.
-    + constructor; auto.
-    + intros j. destruct (Nat.eq_dec j i) as [->|Hne].
-      * rewrite upd_fun_eq. constructor; auto. intros Hx. apply Hnin. eauto.
-      * rewrite upd_fun_neq by exact Hne. auto.
-    + intros j l. destruct (Nat.eq_dec j i) as [->|Hne].
-      * rewrite upd_fun_eq. intros [<-|Hl]; [left; auto | right; eauto].
-      * rewrite upd_fun_neq by exact Hne. intros Hl. right. eauto.
-    + intros l [<-|Hl].
-      * exists i. rewrite upd_fun_eq. left. reflexivity.
-      * destruct (H4 l Hl) as [j Hj]. exists j. destruct (Nat.eq_dec j i) as [->|Hne].
+    set (x := (cls, i0)) in *.
+    assert (Hxi : ~ In x (H i)) by (apply rank_not_lt_all; eapply Hacq; reflexivity).
+    destruct Hst as [(_ & Hnin & ->)|(-> & _ & ->)].
+    + (* obtained *)
+      repeat split.
+      * constructor; auto.
+      * intros j. destruct (Nat.eq_dec j i) as [->|Hne].
+        -- rewrite upd_fun_eq. constructor; auto.
+        -- rewrite upd_fun_neq by exact Hne. auto.
+      * intros j l. destruct (Nat.eq_dec j i) as [->|Hne].
+        -- rewrite upd_fun_eq. intros [<-|Hl] Hc; [left; auto | right; eauto].
+        -- rewrite upd_fun_neq by exact Hne. intros Hl Hc. right. eauto.
+      * intros l [<-|Hl].
+        -- exists i. rewrite upd_fun_eq. left. reflexivity.
+        -- destruct (H4 l Hl) as [j Hj]. exists j. destruct (Nat.eq_dec j i) as [->|Hne].
+           ++ rewrite upd_fun_eq. right. exact Hj.
+           ++ rewrite upd_fun_neq by exact Hne. exact Hj.
+      * intros j1 j2 l Hc.
+        destruct (Nat.eq_dec j1 i) as [->|Hne1]; destruct (Nat.eq_dec j2 i) as [->|Hne2];
+          rewrite ?upd_fun_eq, ?(upd_fun_neq _ _ Hne1), ?(upd_fun_neq _ _ Hne2); auto.
+        -- intros [<-|Hl1] Hl2; [exfalso; apply Hnin; eauto | eauto].
+        -- intros Hl1 [<-|Hl2]; [exfalso; apply Hnin; eauto | eauto].
+        -- eauto.
+    + (* flock failed: a ghost entry in the view of thread i *)
+      repeat split.
+      * exact H1.
+      * intros j. destruct (Nat.eq_dec j i) as [->|Hne].
+        -- rewrite upd_fun_eq. constructor; auto.
+        -- rewrite upd_fun_neq by exact Hne. auto.
+      * intros j l. destruct (Nat.eq_dec j i) as [->|Hne].
+        -- rewrite upd_fun_eq. intros [<-|Hl] Hc; [exfalso; apply Hc; reflexivity | eauto].
+        -- rewrite upd_fun_neq by exact Hne. eauto.
+      * intros l Hl. destruct (H4 l Hl) as [j Hj]. exists j. destruct (Nat.eq_dec j i) as [->|Hne].
         -- rewrite upd_fun_eq. right. exact Hj.
         -- rewrite upd_fun_neq by exact Hne. exact Hj.
-    + intros j1 j2 l.
-      destruct (Nat.eq_dec j1 i) as [->|Hne1]; destruct (Nat.eq_dec j2 i) as [->|Hne2];
-        rewrite ?upd_fun_eq, ?(upd_fun_neq _ _ Hne1), ?(upd_fun_neq _ _ Hne2); auto.
-      * intros [<-|Hl1] Hl2; [exfalso; apply Hnin; eauto | eauto].
-      * intros Hl1 [<-|Hl2]; [exfalso; apply Hnin; eauto | eauto].
-      * eauto.
+      * intros j1 j2 l Hc.
+        destruct (Nat.eq_dec j1 i) as [->|Hne1]; destruct (Nat.eq_dec j2 i) as [->|Hne2];
+          rewrite ?upd_fun_eq, ?(upd_fun_neq _ _ Hne1), ?(upd_fun_neq _ _ Hne2); auto.
+        -- intros [<-|Hl1] Hl2; [exfalso; apply Hc; reflexivity | eauto].
+        -- intros Hl1 [<-|Hl2]; [exfalso; apply Hc; reflexivity | eauto].
+        -- eauto.
   - (* Release *)
-    destruct Hst as [Hin ->]. set (x := (cls, i0)) in *.
+    set (x := (cls, i0)) in *.
     assert (Hxi : In x (H i)) by (apply Hrel with (cls := cls) (x := i0); reflexivity).
-    repeat split.
-    + apply NoDup_remove1; auto.
-    + intros j. destruct (Nat.eq_dec j i) as [->|Hne].
-      * rewrite upd_fun_eq. apply NoDup_remove1; auto.
-      * rewrite upd_fun_neq by exact Hne. auto.
-    + intros j l. destruct (Nat.eq_dec j i) as [->|Hne].
-      * rewrite upd_fun_eq. intros Hl.
-        assert (Hl' := In_remove1 _ _ _ Hl).
-        apply In_remove1_neq; [eauto|]. intros ->.
-        eapply NoDup_remove1_notin; [apply (H2 i) | exact Hl].
-      * rewrite upd_fun_neq by exact Hne. intros Hl.
-        apply In_remove1_neq; [eauto|]. intros ->. apply Hne. eapply H5; eauto.
-    + intros l Hl. assert (Hl' := In_remove1 _ _ _ Hl).
-      assert (Hlx : l <> x) by (intros ->; eapply NoDup_remove1_notin; [exact H1 | exact Hl]).
-      destruct (H4 l Hl') as [j Hj]. exists j. destruct (Nat.eq_dec j i) as [->|Hne].
-      * rewrite upd_fun_eq. apply In_remove1_neq; auto.
-      * rewrite upd_fun_neq by exact Hne. exact Hj.
-    + intros j1 j2 l.
-      destruct (Nat.eq_dec j1 i) as [->|Hne1]; destruct (Nat.eq_dec j2 i) as [->|Hne2];
-        rewrite ?upd_fun_eq, ?(upd_fun_neq _ _ Hne1), ?(upd_fun_neq _ _ Hne2); auto.
-      * intros Hl1 Hl2. apply In_remove1 in Hl1. eauto.
-      * intros Hl1 Hl2. apply In_remove1 in Hl2. eauto.
-      * eauto.
+    assert (Hviews : forall j, NoDup (upd_fun H i (remove1 lock_eqb x (H i)) j)).
+    { intros j. destruct (Nat.eq_dec j i) as [->|Hne].
+      - rewrite upd_fun_eq. apply NoDup_remove1; auto.
+      - rewrite upd_fun_neq by exact Hne. auto. }
+    assert (Hin_old : forall j l, In l (upd_fun H i (remove1 lock_eqb x (H i)) j) -> In l (H j)).
+    { intros j l. destruct (Nat.eq_dec j i) as [->|Hne].
+      - rewrite upd_fun_eq. apply In_remove1.
+      - rewrite upd_fun_neq by exact Hne. auto. }
+    assert (Hdisj : forall j1 j2 l, fst l <> LFile ->
+              In l (upd_fun H i (remove1 lock_eqb x (H i)) j1) ->
+              In l (upd_fun H i (remove1 lock_eqb x (H i)) j2) -> j1 = j2).
+    { intros j1 j2 l Hc Hl1 Hl2. eapply H5; eauto. }
+    assert (Hkeep : forall l, In l L -> l <> x -> exists j, In l (upd_fun H i (remove1 lock_eqb x (H i)) j)).
+    { intros l Hl Hlx. destruct (H4 l Hl) as [j Hj]. exists j. destruct (Nat.eq_dec j i) as [->|Hne].
+      - rewrite upd_fun_eq. apply In_remove1_neq; auto.
+      - rewrite upd_fun_neq by exact Hne. exact Hj. }
+    destruct Hst as [(Hin & ->)|(Ecls & Hnin & ->)].
+    + (* released *)
+      repeat split; auto.
+      * apply NoDup_remove1; auto.
+      * intros j l Hl Hc. apply In_remove1_neq; [eapply H3; eauto|]. intros ->.
+        destruct (Nat.eq_dec j i) as [->|Hne].
+        -- rewrite upd_fun_eq in Hl. eapply NoDup_remove1_notin; [apply (H2 i) | exact Hl].
+        -- rewrite upd_fun_neq in Hl by exact Hne. apply Hne. eapply H5; eauto.
+      * intros l Hl. assert (Hl' := In_remove1 _ _ _ Hl).
+        apply Hkeep; auto. intros ->. eapply NoDup_remove1_notin; [exact H1 | exact Hl].
+    + (* the flock was not held (ghost entry, or taken away): the world is unchanged *)
+      repeat split; auto.
+      * intros j l Hl Hc. eapply H3; eauto.
+      * intros l Hl. apply Hkeep; auto. intros ->. contradiction.
 Qed.
 
 (* what one step of thread i does, as far as the invariant is concerned *)
 Definition effect (i : nat) (o : op) (w : world) (a : ans) (w' : world) : Prop :=
   forall h kn,
-    refs_typed (fs w) -> KInv i kn (fs w) -> (forall l, In l h -> In l (locks w)) -> pre i h kn o ->
+    refs_typed (fs w) -> KInv i kn (fs w) ->
+    (forall l, In l h -> fst l <> LFile -> In l (locks w)) -> pre i h kn o ->
     ans_ok i kn o a /\
     refs_typed (fs w') /\
     KInv i (next_k kn o a) (fs w') /\
     (forall b, ~ mine i b -> lookup b (fs w') = lookup b (fs w)) /\
-    locks_step o (locks w) (locks w').
+    locks_step o a (locks w) (locks w').
 
 Lemma exec_effect : forall i o w a w', exec_op i o w = Some (a, w') -> effect i o w a w'.
 Proof. intros i o w a w' H h kn H1 H2 H3 H4. eapply exec_op_sound; eauto. Qed.
 
+(* a failure at ANY fault site, flock included: the world is unchanged *)
 Lemma fault_effect : forall i o w, faultable o = true -> effect i o w (AErr EFault) w.
 Proof.
   intros i o w Hf h kn H1 H2 H3 H4.
   split; [apply faultable_ans_ok; exact Hf|]. split; [exact H1|]. split; [|split; [auto|]].
   - destruct o; simpl; auto; apply KInv_kdrop; auto.
-  - destruct o; simpl in *; try discriminate; auto. destruct cls; discriminate.
+  - destruct o; simpl in *; try discriminate; auto.
+    destruct cls; try discriminate. right. repeat split; auto. discriminate.
 Qed.
 
 Section Pools.
@@ -1346,7 +989,7 @@ Section Pools.
     end.
 
   (* thread i's next operation fails with an I/O error: the world is unchanged, the thread
-     receives the error.  Every fault site of Sched.is_site except flock. *)
+     receives the error.  EVERY fault site of Sched.is_site, flock included. *)
   Definition fault_step (c : cfg) (i : nat) : option cfg :=
     match nth_error ps i, nth_error (fst c) i with
     | Some p, Some h =>
@@ -1384,7 +1027,7 @@ Section Pools.
       eapply IH; [|exact He]. eapply reach_step; [exact Hr|]. eapply gs_norm. exact E.
   Qed.
 
-  Definition Inv (c : cfg) : Prop :=
+  Definition PInv (c : cfg) : Prop :=
     length (fst c) = length ps /\
     refs_typed (fs (snd c)) /\
     exists (H : nat -> list lock) (K : nat -> knowl),
@@ -1393,9 +1036,9 @@ Section Pools.
       (forall i, KInv i (K i) (fs (snd c))) /\
       (forall i, i < length ps -> exists m, residual c i = Some m /\ Br i m (H i) (K i) Qfin).
 
-  Lemma Inv_init : forall w0, pool_ok -> locks w0 = [] -> refs_typed (fs w0) -> Inv (init_cfg ps w0).
+  Lemma PInv_init : forall w0, pool_ok -> locks w0 = [] -> refs_typed (fs w0) -> PInv (init_cfg ps w0).
   Proof.
-    intros w0 Hok Hl Hrt. unfold Inv, init_cfg. simpl. split; [apply map_length|]. split; [exact Hrt|].
+    intros w0 Hok Hl Hrt. unfold PInv, init_cfg. simpl. split; [apply map_length|]. split; [exact Hrt|].
     exists (fun _ => []), (fun _ => []). split; [|split; [auto|split]].
     - rewrite Hl. unfold LInv. repeat split; try constructor; simpl; try tauto.
     - intros i. apply KInv_nil.
@@ -1405,10 +1048,10 @@ Section Pools.
       rewrite nth_error_map. rewrite E. simpl. apply resume_nil.
   Qed.
 
-  Lemma Inv_advance : forall c i hist o k a w',
-    Inv c -> nth_error (fst c) i = Some hist -> residual c i = Some (Vis o k) ->
+  Lemma PInv_advance : forall c i hist o k a w',
+    PInv c -> nth_error (fst c) i = Some hist -> residual c i = Some (Vis o k) ->
     effect i o (snd c) a w' ->
-    Inv (upd_nth i (a :: hist) (fst c), w').
+    PInv (upd_nth i (a :: hist) (fst c), w').
   Proof.
     intros [hs w] i hist o k a w' (Hlen & Hrt & H & K & HL & Hout & HK & HT) Hh Hres Heff.
     simpl in *.
@@ -1418,10 +1061,10 @@ Section Pools.
     simpl in Hbr. destruct Hbr as [Hpre Hbr].
     assert (HLw := HL). destruct HLw as (_ & _ & Hsub & _).
     destruct (Heff (H i) (K i) Hrt (HK i) (Hsub i) Hpre) as (Hans & Hrt' & HK' & Hfr & Hls).
-    unfold Inv. simpl. split; [rewrite upd_nth_length; exact Hlen|]. split; [exact Hrt'|].
+    unfold PInv. simpl. split; [rewrite upd_nth_length; exact Hlen|]. split; [exact Hrt'|].
     exists (upd_fun H i (next_h (H i) o)), (upd_fun K i (next_k (K i) o a)).
     split; [|split; [|split]].
-    - eapply LInv_step; eauto. intros cls x ->. exact Hpre.
+    - eapply LInv_step; eauto; intros cls x ->; exact Hpre.
     - intros j Hj. rewrite upd_fun_neq by lia. auto.
     - intros j. destruct (Nat.eq_dec j i) as [->|Hne].
       + rewrite upd_fun_eq. exact HK'.
@@ -1462,21 +1105,21 @@ Section Pools.
     inversion H; subst. exists hist, o, k. auto.
   Qed.
 
-  Lemma Inv_gstep : forall c c', Inv c -> gstep c c' -> Inv c'.
+  Lemma PInv_gstep : forall c c', PInv c -> gstep c c' -> PInv c'.
   Proof.
     intros c c' HI Hs. destruct Hs as [c i c' H|c i c' H].
     - apply thread_step_inv in H. destruct H as (hist & o & k & a & w' & H1 & H2 & H3 & ->).
-      eapply Inv_advance; eauto. apply exec_effect. exact H3.
+      eapply PInv_advance; eauto. apply exec_effect. exact H3.
     - apply fault_step_inv in H. destruct H as (hist & o & k & H1 & H2 & H3 & ->).
-      eapply Inv_advance; eauto. apply fault_effect. exact H3.
+      eapply PInv_advance; eauto. apply fault_effect. exact H3.
   Qed.
 
-  Lemma Inv_reachable : forall w0 c,
-    pool_ok -> locks w0 = [] -> refs_typed (fs w0) -> reachable w0 c -> Inv c.
+  Lemma PInv_reachable : forall w0 c,
+    pool_ok -> locks w0 = [] -> refs_typed (fs w0) -> reachable w0 c -> PInv c.
   Proof.
     intros w0 c Hok Hl Hrt Hr. induction Hr.
-    - apply Inv_init; auto.
-    - eapply Inv_gstep; eauto.
+    - apply PInv_init; auto.
+    - eapply PInv_gstep; eauto.
   Qed.
 
   (* ---- a configuration that cannot move ---- *)
@@ -1506,7 +1149,7 @@ Section Pools.
 
   (* nobody waits: a thread waiting for a lock of rank r forces its holder to wait for a lock
      of a strictly higher rank, and ranks are bounded *)
-  Lemma nobody_waits : forall c, Inv c -> stuck ps c ->
+  Lemma nobody_waits : forall c, PInv c -> stuck ps c ->
     forall n i cls x k, 4 - rank cls <= n ->
       residual c i = Some (Vis (Acquire cls x) k) -> In (cls, x) (locks (snd c)) -> False.
   Proof.
@@ -1525,17 +1168,26 @@ Section Pools.
         eapply (IH j cls' x' k'); eauto. lia.
   Qed.
 
-  Theorem stuck_finished : forall c, Inv c -> stuck ps c ->
-    finished ps c = true /\ locks (snd c) = [] /\ refs_typed (fs (snd c)).
+  Lemma stuck_all_returned : forall c, PInv c -> stuck ps c ->
+    forall i, i < length ps -> exists r, residual c i = Some (Ret r).
   Proof.
     intros c HI Hst. pose proof (nobody_waits HI Hst) as Hnw.
     destruct HI as (Hlen & Hrt & H & K & HL & Hout & HK & HT).
+    intros i Hi. destruct (HT i Hi) as (m & Hm & Hbr).
+    destruct (stuck_thread _ Hst Hm) as [[r ->]|[->|(cls & x & k & -> & Hin)]].
+    - exists r. auto.
+    - simpl in Hbr. contradiction.
+    - exfalso. eapply (Hnw (4 - rank cls)); eauto.
+  Qed.
+
+  Theorem stuck_finished : forall c, PInv c -> stuck ps c ->
+    finished ps c = true /\ locks (snd c) = [] /\ refs_typed (fs (snd c)).
+  Proof.
+    intros c HI Hst. pose proof (stuck_all_returned HI Hst) as Hall.
+    destruct HI as (Hlen & Hrt & H & K & HL & Hout & HK & HT).
     assert (Hret : forall i, i < length ps -> exists r, residual c i = Some (Ret r) /\ H i = []).
-    { intros i Hi. destruct (HT i Hi) as (m & Hm & Hbr).
-      destruct (stuck_thread _ Hst Hm) as [[r ->]|[->|(cls & x & k & -> & Hin)]].
-      - exists r. split; auto.
-      - simpl in Hbr. contradiction.
-      - exfalso. eapply (Hnw (4 - rank cls)); eauto. }
+    { intros i Hi. destruct (Hall i Hi) as [r Hr]. exists r. split; auto.
+      destruct (HT i Hi) as (m & Hm & Hbr). rewrite Hr in Hm. inversion Hm; subst m. exact Hbr. }
     split; [|split; [|exact Hrt]].
     - unfold finished, results. apply forallb_forall. intros r Hr.
       apply in_map_iff in Hr. destruct Hr as (i & <- & Hi). apply in_seq in Hi.
@@ -1550,6 +1202,19 @@ Section Pools.
       + rewrite (Hout j Hle) in Hj. contradiction.
       + destruct (Hret j Hlt) as (r & _ & E). rewrite E in Hj. contradiction.
   Qed.
+
+  (* once no thread can take a normal step, no thread can take a faulted step either: every call
+     has returned.  (Without the invariant this fails here: a thread blocked at flock could
+     still be failed.) *)
+  Lemma stuck_gstuck : forall c, PInv c -> stuck ps c -> gstuck c.
+  Proof.
+    intros c HI Hst c' Hs. destruct Hs as [c i c' H|c i c' H].
+    - rewrite (Hst i) in H. discriminate.
+    - apply fault_step_inv in H. destruct H as (hist & o & k & H1 & H2 & _ & _).
+      assert (Hi : i < length ps).
+      { destruct HI as (Hlen & _). rewrite <- Hlen. apply nth_error_Some. congruence. }
+      destruct (stuck_all_returned HI Hst Hi) as [r Hr]. rewrite Hr in H2. discriminate.
+  Qed.
 End Pools.
 
 (* ====================================================================================== *)
@@ -1562,43 +1227,53 @@ Proof.
   destruct (nth_error calls i) as [c|]; inversion H; subst. apply api_bracketed.
 Qed.
 
-(* C08, general form.  Any number of concurrent calls, any calls (including the rejected ones
-   and the D3 witness vehicle), any start world that holds no lock and whose reference files
-   are typed, any interleaving, any pattern of I/O errors at any fault site other than flock:
-   a configuration in which no thread can move is one in which every call has returned and
-   no lock is held (and the reference files are typed again, so the same holds for whatever is
-   run next). *)
-Theorem no_deadlock_no_leak : forall calls w0 c,
+(* C08, general form, NO fault excluded.  Any number of concurrent calls, any calls, any start
+   world that holds no lock and whose reference files are typed, any interleaving, any pattern of
+   I/O errors at any fault site of [Sched.is_site] — the flock included, in any thread, any number
+   of times: a configuration in which no thread can move is one in which every call has returned
+   and NO lock is held — no pid, cid or document identifier, and no file lock either. *)
+Theorem no_deadlock_no_leak_any_fault : forall calls w0 c,
   locks w0 = [] -> refs_typed (fs w0) ->
   reachable (map api calls) w0 c -> gstuck (map api calls) c ->
   finished (map api calls) c = true /\ locks (snd c) = [] /\ refs_typed (fs (snd c)).
 Proof.
   intros calls w0 c Hl Hrt Hr Hst.
   apply stuck_finished.
-  - eapply Inv_reachable; eauto. apply api_pool_ok.
+  - eapply PInv_reachable; eauto. apply api_pool_ok.
   - apply gstuck_stuck. exact Hst.
 Qed.
 
 (* the same with the weaker hypothesis that no thread can take a NORMAL step *)
-Theorem no_deadlock_no_leak_stuck : forall calls w0 c,
+Theorem no_deadlock_no_leak_any_fault_stuck : forall calls w0 c,
   locks w0 = [] -> refs_typed (fs w0) ->
   reachable (map api calls) w0 c -> stuck (map api calls) c ->
   finished (map api calls) c = true /\ locks (snd c) = [] /\ refs_typed (fs (snd c)).
 Proof.
   intros calls w0 c Hl Hrt Hr Hst.
-  apply stuck_finished; auto. eapply Inv_reachable; eauto. apply api_pool_ok.
+  apply stuck_finished; auto. eapply PInv_reachable; eauto. apply api_pool_ok.
 Qed.
 
-(* the fault-free corollary, in the vocabulary of Sched.v exactly *)
-Theorem no_deadlock_fault_free : forall calls w0 sched c,
-  locks w0 = [] -> refs_typed (fs w0) ->
-  exec (map api calls) sched (init_cfg (map api calls) w0) = Some c ->
-  stuck (map api calls) c ->
-  finished (map api calls) c = true /\ locks (snd c) = [] /\ refs_typed (fs (snd c)).
+(* Bracket.v's runs are among the runs of this file *)
+Lemma bracket_faultable_is_site : forall o, Bracket.faultable o = true -> faultable o = true.
+Proof. intros o H. unfold Bracket.faultable in H. apply andb_true_iff in H. tauto. Qed.
+
+Lemma bracket_gstep : forall A (ps : list (prog A)) c c', Bracket.gstep ps c c' -> gstep ps c c'.
 Proof.
-  intros calls w0 sched c Hl Hrt He Hst.
-  eapply no_deadlock_no_leak_stuck; eauto.
-  eapply exec_reachable; [apply reach_init | exact He].
+  intros A ps c c' [c0 i c1 H|c0 i c1 H].
+  - eapply gs_norm. exact H.
+  - eapply gs_fault with (i := i). unfold Bracket.fault_step in H. unfold fault_step.
+    destruct (nth_error ps i); [|discriminate]. destruct (nth_error (fst c0) i); [|discriminate].
+    destruct (resume p (rev l)) as [[r|o k|]|]; try discriminate.
+    destruct (Bracket.faultable o) eqn:E; [|discriminate].
+    rewrite (bracket_faultable_is_site _ E). exact H.
+Qed.
+
+Lemma bracket_reachable : forall A (ps : list (prog A)) w0 c,
+  Bracket.reachable ps w0 c -> reachable ps w0 c.
+Proof.
+  intros A ps w0 c H. induction H.
+  - apply reach_init.
+  - eapply reach_step; [eassumption|]. apply bracket_gstep. assumption.
 Qed.
 
 (* progress: from a reachable configuration in which some call has not returned, some thread
@@ -1618,80 +1293,23 @@ Proof.
   pose proof (@thread_step_lt _ _ _ _ _ E) as Hlt. rewrite (H i Hlt) in E. discriminate.
 Qed.
 
-Theorem progress : forall calls w0 c,
+Theorem progress_any_fault : forall calls w0 c,
   locks w0 = [] -> refs_typed (fs w0) ->
   reachable (map api calls) w0 c -> finished (map api calls) c = false ->
   exists i c', thread_step (map api calls) c i = Some c'.
 Proof.
   intros calls w0 c Hl Hrt Hr Hf.
   destruct (stuck_dec (map api calls) c) as [Hst|H]; auto.
-  destruct (no_deadlock_no_leak_stuck calls Hl Hrt Hr Hst) as [E _]. congruence.
+  destruct (no_deadlock_no_leak_any_fault_stuck calls Hl Hrt Hr Hst) as [E _]. congruence.
 Qed.
 
-(* ---- afterwards: every identifier can be operated on again without blocking ---- *)
-
-Lemma run_as_total : forall A t (m : prog A) h kn w,
-  Br t m h kn (fun _ h' _ => h' = []) ->
-  refs_typed (fs w) -> KInv t kn (fs w) -> LInv (upd_fun (fun _ => []) t h) (locks w) ->
-  exists w' r, run_as t w m = Some (w', r) /\ locks w' = [] /\ refs_typed (fs w').
-Proof.
-  induction m as [r|o k IH|]; intros h kn w Hbr Hrt Hk HL; simpl in Hbr.
-  - subst h. exists w, r. simpl. split; auto. split; auto.
-    destruct HL as (_ & _ & _ & L4 & _). destruct (locks w) as [|l L]; auto. exfalso.
-    destruct (L4 l (or_introl eq_refl)) as [j Hj]. unfold upd_fun in Hj.
-    destruct (Nat.eqb j t); contradiction.
-  - destruct Hbr as [Hpre Hbr]. simpl.
-    assert (Hsub : forall l, In l h -> In l (locks w)).
-    { intros l Hl. destruct HL as (_ & _ & L3 & _). apply (L3 t). rewrite upd_fun_eq. exact Hl. }
-    destruct (exec_op t o w) as [[a w']|] eqn:E.
-    + destruct (@exec_op_sound t h kn o w a w' Hrt Hk Hsub Hpre E) as (Hans & Hrt' & Hk' & _ & Hls).
-      apply (IH a (next_h h o) (next_k kn o a) w'); auto.
-      eapply LInv_ext; [|eapply (@LInv_step _ _ _ t o); [exact HL| |exact Hls]].
-      * intros j. unfold upd_fun. rewrite Nat.eqb_refl. destruct (Nat.eqb j t); auto.
-      * intros cls x ->. rewrite upd_fun_eq. exact Hpre.
-    + exfalso. apply exec_op_enabled in E. destruct E as (cls & x & -> & Hin).
-      destruct HL as (_ & _ & _ & L4 & _). destruct (L4 _ Hin) as [j Hj]. unfold upd_fun in Hj.
-      destruct (Nat.eqb j t); [|contradiction].
-      simpl in Hpre. specialize (Hpre _ Hj). simpl in Hpre. lia.
-  - contradiction.
-Qed.
+(* ---- a single thread run alone, with the weaker lock invariant ---- *)
 
 Lemma LInv_empty : forall t L, L = [] -> LInv (upd_fun (fun _ => []) t []) L.
 Proof.
   intros t L ->. unfold LInv, upd_fun. repeat split; try constructor; simpl; try tauto;
     intros; destruct (Nat.eqb _ t); try constructor; try contradiction.
 Qed.
-
-(* from a world without held locks and with typed reference files — in particular the world
-   left by any pool, by [no_deadlock_no_leak] — every call, run alone, returns: it never blocks
-   on a pid, cid or document that an earlier call, successful or failed, was working on *)
-Theorem afterwards_every_call_returns : forall w call,
-  locks w = [] -> refs_typed (fs w) ->
-  exists w' r, run_seq w (api call) = Some (w', r) /\ locks w' = [] /\ refs_typed (fs w').
-Proof.
-  intros w call Hl Hrt. rewrite <- run_as_0.
-  eapply run_as_total with (h := []) (kn := []); auto.
-  - apply api_bracketed.
-  - apply KInv_nil.
-  - apply LInv_empty. exact Hl.
-Qed.
-
-(* hence every world built by a sequential history from the empty store qualifies as a start
-   world of the theorems above *)
-Lemma run_history_ok : forall h w w' rs,
-  locks w = [] -> refs_typed (fs w) -> run_history w h = Some (w', rs) ->
-  locks w' = [] /\ refs_typed (fs w').
-Proof.
-  induction h as [|c h IH]; intros w w' rs Hl Hrt H; simpl in H.
-  - inversion H; subst. auto.
-  - destruct (@afterwards_every_call_returns w c Hl Hrt) as (w1 & r & E & Hl1 & Hrt1).
-    rewrite E in H. destruct (run_history w1 h) as [[w2 rs2]|] eqn:E2; [|discriminate].
-    inversion H; subst. eapply IH; eauto.
-Qed.
-
-Corollary run_history_empty_ok : forall h w' rs,
-  run_history empty_world h = Some (w', rs) -> locks w' = [] /\ refs_typed (fs w').
-Proof. intros. eapply run_history_ok; eauto. reflexivity. apply refs_typed_nil. Qed.
 
 (* ---- termination: there is no infinite run, with or without faults ---- *)
 
@@ -1795,7 +1413,7 @@ End Termination.
 (* together: from every reachable configuration the pool can be run to completion (and, by
    [no_deadlock_no_leak] and [gstep_terminates], every maximal run, however scheduled and however
    faulted, is finite and ends like this) *)
-Theorem runs_to_completion : forall calls w0 c,
+Theorem runs_to_completion_any_fault : forall calls w0 c,
   locks w0 = [] -> refs_typed (fs w0) -> reachable (map api calls) w0 c ->
   exists sched c', exec (map api calls) sched c = Some c' /\
     finished (map api calls) c' = true /\ locks (snd c') = [].
@@ -1803,7 +1421,7 @@ Proof.
   intros calls w0 c Hl Hrt. induction (gstep_terminates (map api calls) c) as [c _ IH]. intros Hr.
   destruct (stuck_dec (map api calls) c) as [Hst|(i & c1 & Hs)].
   - exists [], c. simpl. split; auto.
-    destruct (no_deadlock_no_leak_stuck calls Hl Hrt Hr Hst) as (H1 & H2 & _). auto.
+    destruct (no_deadlock_no_leak_any_fault_stuck calls Hl Hrt Hr Hst) as (H1 & H2 & _). auto.
   - assert (Hg : gstep (map api calls) c c1) by (eapply gs_norm; exact Hs).
     destruct (IH c1 Hg) as (s & c' & He & Hf); [eapply reach_step; eauto|].
     exists (i :: s), c'. simpl. rewrite Hs. auto.
@@ -1837,17 +1455,115 @@ Section GExec.
       + destruct (thread_step ps c i) eqn:E; [|discriminate].
         eapply IH; [|exact He]. eapply reach_step; [exact Hr|]. eapply gs_norm. exact E.
   Qed.
-
-  (* no normal step implies no faulted step either: a fault needs an enabled operation *)
-  Lemma stuck_gstuck : forall c, stuck ps c -> gstuck ps c.
-  Proof.
-    intros c Hst c' Hs. destruct Hs as [c i c' H|c i c' H].
-    - rewrite (Hst i) in H. discriminate.
-    - apply fault_step_inv in H. destruct H as (hist & o & k & H1 & H2 & H3 & _).
-      specialize (Hst i). unfold thread_step in Hst. unfold residual in H2.
-      destruct (nth_error ps i); [|discriminate]. rewrite H1 in *. rewrite H2 in Hst.
-      destruct (exec_op i o (snd c)) as [[a w']|] eqn:E; [discriminate|].
-      apply exec_op_enabled in E. destruct E as (cls & x & -> & _).
-      destruct cls; discriminate.
-  Qed.
 End GExec.
+
+(* ====================================================================================== *)
+(* §7  a single call under every fault plan of [Sched.run_fault] (C13, clause F2)          *)
+(* ====================================================================================== *)
+
+Lemma faulted_is_site : forall st o, FaultGeneral.faulted st o = true -> faultable o = true.
+Proof. intros st o H. unfold FaultGeneral.faulted in H. apply andb_true_iff in H. apply H. Qed.
+
+(* FaultGeneral.run_fault_total without the hypothesis [noflock] *)
+Lemma run_fault_total : forall A (m : prog A) st h kn w,
+  Br 0 m h kn (fun _ h' _ => h' = []) ->
+  refs_typed (fs w) -> KInv 0 kn (fs w) ->
+  LInv (upd_fun (fun _ => []) 0 h) (locks w) ->
+  exists w' r, run_fault st w m = Some (w', r) /\ locks w' = [] /\ refs_typed (fs w').
+Proof.
+  induction m as [r|o k IH|]; intros st h kn w Hbr Hrt Hk HL; simpl in Hbr.
+  - subst h. exists w, r. simpl. split; auto. split; auto.
+    destruct HL as (_ & _ & _ & L4 & _). destruct (locks w) as [|l L]; auto. exfalso.
+    destruct (L4 l (or_introl eq_refl)) as [j Hj]. unfold upd_fun in Hj.
+    destruct (Nat.eqb j 0); contradiction.
+  - destruct Hbr as [Hpre Hbr]. simpl.
+    rewrite FaultGeneral.fault_op_faulted.
+    assert (Hsub : forall l, In l h -> fst l <> LFile -> In l (locks w)).
+    { intros l Hl Hc. destruct HL as (_ & _ & L3 & _). apply (L3 0); [rewrite upd_fun_eq; exact Hl | exact Hc]. }
+    assert (Hadv : forall a w', effect 0 o w a w' ->
+              exists w'' r, run_fault (snd (fault_op st o w)) w' (k a) = Some (w'', r) /\
+                            locks w'' = [] /\ refs_typed (fs w'')).
+    { intros a w' Heff.
+      destruct (Heff h kn Hrt Hk Hsub Hpre) as (Hans & Hrt' & Hk' & _ & Hls).
+      apply (IH a _ (next_h h o) (next_k kn o a) w'); auto.
+      eapply LInv_ext; [|eapply (@LInv_step _ _ _ 0 o a); [exact HL| | |exact Hls]].
+      - intros j. unfold upd_fun. rewrite Nat.eqb_refl. destruct (Nat.eqb j 0); auto.
+      - intros cls x ->. rewrite upd_fun_eq. exact Hpre.
+      - intros cls x ->. rewrite upd_fun_eq. exact Hpre. }
+    destruct (FaultGeneral.faulted st o) eqn:Ef.
+    + apply Hadv. apply fault_effect. eapply faulted_is_site. exact Ef.
+    + destruct (exec_op 0 o w) as [[a w']|] eqn:E.
+      * apply Hadv. apply exec_effect. exact E.
+      * exfalso. apply exec_op_enabled in E. destruct E as (cls & x & -> & Hin).
+        destruct HL as (_ & _ & _ & L4 & _). destruct (L4 _ Hin) as [j Hj]. unfold upd_fun in Hj.
+        destruct (Nat.eqb j 0); [|contradiction].
+        simpl in Hpre. specialize (Hpre _ Hj). simpl in Hpre. lia.
+  - contradiction.
+Qed.
+
+(* (F2), every fault plan: the fault state st is arbitrary — FWait k pers for every k and both
+   modes, FStuck d, FDone — and the failing operation may be the flock itself.  The call returns
+   (a value or an exception) and no lock whatsoever is left. *)
+Theorem fault_returns_no_lock_any : forall w0 c st,
+  Spec.Inv w0 ->
+  exists w r, run_fault st w0 (api c) = Some (w, r) /\ locks w = [].
+Proof.
+  intros w0 c st [(W & _) HL].
+  destruct (@run_fault_total _ (api c) st [] [] w0) as (w & r & Hr & Hl & _).
+  - apply api_bracketed.
+  - apply well_typed_refs_typed. exact W.
+  - apply KInv_nil.
+  - apply LInv_empty. exact HL.
+  - exists w, r. auto.
+Qed.
+
+Corollary one_off_fault_returns_no_lock_any : forall w0 c k,
+  Spec.Inv w0 -> exists w r, run_fault (FWait k false) w0 (api c) = Some (w, r) /\ locks w = [].
+Proof. intros. apply fault_returns_no_lock_any. assumption. Qed.
+
+(* ====================================================================================== *)
+(* §8  non-vacuity: tag_object of an additional pid, the flock fails                        *)
+(* ====================================================================================== *)
+
+(* pid 1 is bound to object 7 *)
+Definition w_bound : world :=
+  mkWorld [(AObj 7, CData 7 1 1); (APidRef 1, CCid 7); (ACidRef 7, CLines [1])] [].
+
+(* single call: the 9th fault site of tag_object(2, 7) is the flock of the cid reference file; it
+   fails once: the call raises OSError, the store is as before, no lock is left.  It fails
+   persistently: the roll-back (untag_object), which needs the same flock, fails too — OSError,
+   the pid reference of 2 stays behind (the D10 family, FaultGeneral.persistent_fault_defeats_rollback,
+   is not specific to flock) — and still no lock is left.
+   The plans are among those that [FaultGeneral.noflock] excluded. *)
+Example flock_fault_tag_additional_pid :
+  FaultGeneral.fault_target 8 w_bound (api (CTag 2 7)) = Some (Acquire LFile (IDoc (ACidRef 7))) /\
+  run_fault (FWait 8 false) w_bound (api (CTag 2 7)) = Some (w_bound, Exn EOSError) /\
+  run_fault (FWait 8 true) w_bound (api (CTag 2 7)) =
+    Some (mkWorld [(AObj 7, CData 7 1 1); (APidRef 1, CCid 7); (APidRef 2, CCid 7); (ACidRef 7, CLines [1])] [],
+          Exn EOSError) /\
+  ~ FaultGeneral.noflock (FWait 8 false) w_bound (api (CTag 2 7)).
+Proof.
+  split; [vm_compute; reflexivity|]. split; [vm_compute; reflexivity|]. split; [vm_compute; reflexivity|].
+  intros H. vm_compute in H. repeat match type of H with _ /\ _ => destruct H as [? H] end.
+  repeat match goal with H' : true = true -> _ |- _ => specialize (H' eq_refl); try discriminate H' end.
+Qed.
+
+(* a pool: tag_object(2, 7) and tag_object(3, 7) race; thread 0 reaches its flock (15 steps),
+   thread 1 takes its pid lock, the flock of thread 0 FAILS (a step that Bracket.v's runs do not
+   contain), thread 0 rolls back and returns OSError, thread 1 runs to the end *)
+Definition flock_sched : list (nat * bool) :=
+  repeat (0, false) 15 ++ [(1, false); (0, true)] ++ repeat (0, false) 12 ++ repeat (1, false) 23.
+
+Example flock_fault_in_a_pool :
+  let ps := map api [CTag 2 7; CTag 3 7] in
+  (exists c, gexec ps (repeat (0, false) 15 ++ [(1, false)]) (init_cfg ps w_bound) = Some c /\
+             Bracket.fault_step ps c 0 = None /\ fault_step ps c 0 <> None) /\
+  exists c, gexec ps flock_sched (init_cfg ps w_bound) = Some c /\
+    results ps c = [Some (Exn EOSError); Some (Val VUnit)] /\
+    finished ps c = true /\ locks (snd c) = [] /\
+    fs (snd c) = [(AObj 7, CData 7 1 1); (APidRef 1, CCid 7); (APidRef 3, CCid 7); (ACidRef 7, CLines [1; 3])].
+Proof.
+  split.
+  - eexists. split; [vm_compute; reflexivity|]. split; [vm_compute; reflexivity|]. vm_compute. discriminate.
+  - eexists. split; [vm_compute; reflexivity|]. repeat split; vm_compute; reflexivity.
+Qed.
